@@ -2,31 +2,44 @@
 
 import ast
 import string as _string
+import urllib.parse as _up
 
 from ..rulekit import *
 from ..norm import Normalizer, NormError
 from ..exc import EscapeAnalysis
-from ..model import BUILTIN_EXC
+from ..model import BUILTIN_EXC, Program
 from ._c16c17kit import *
+from ._kit_c16 import Exec, Evaluator, EvalRaised, BoolSpace, St, Closure, txt, src_of, mk_not, mk_and, mk_or, qual_name, contexts, flat_facts, callable_normal_form
+from ._kit_c16 import _BUILTINS as EVAL_BUILTINS
 
 R = Rules(
     "C16",
     explanation=(
-        "Structural clauses of Message.set_request_uri / get_request_uri and their helpers, decided on the syntax "
-        "trees of message.py, util/__init__.py, util/uri.py and error.py: (a) the exception-escape set of "
-        "set_request_uri (closure over UndecidedRemote.__new__, from_pathless_uri, hostportsplit, hostportjoin) is "
-        "contained in {MalformedUrlError, IncompleteUrlError}; (b) the rejection guards for fragment, missing scheme, "
-        "missing host and user-info dominate every option store, a non-CoAP scheme stores Proxy-Uri and nothing else, "
-        "the port is read (hence validated) on every CoAP path; (c) the safe sets of the two quoting functions, "
-        "evaluated from the module constants, never contain the separator their output is joined with nor '%', '?', "
-        "'#', and the split/join separators of reader and writer agree; (d) Uri-Host is the strictly percent-decoded "
-        "host passed through the ASCII lower-casing table and is omitted exactly under the IP-literal predicate "
-        "(bracketed, or three dots / digits and dots only / every label <= 255), the remote keeps scheme and netloc; "
-        "(e) hostportjoin brackets exactly hosts that contain ':' and are not bracketed, hostportsplit delegates to "
-        "SplitResult, UndecidedRemote normalises bracketed literals through ipaddress.ip_address and re-joins with "
-        "hostportjoin.  Not decided: value-level round-trip equality over Unicode, RFC 3986 validity of host names."
+        "Clauses over Message.set_request_uri / get_request_uri and their helpers, decided on the syntax trees of message.py, "
+        "util/__init__.py, util/uri.py and error.py.  The functions are summarised by symbolic execution (locals substituted by "
+        "their definitions, helper functions that are not anchors of the confirmed tree executed in place, search / accumulation "
+        "loops turned into any() / comprehensions, conditional expressions hoisted into path conditions), so every clause is "
+        "phrased over outcomes (path condition, field stores, evaluated expressions, return value / raised class) and is "
+        "indifferent to early returns, nesting, hoisted locals, extracted helpers and guard order.  Conditions are compared by "
+        "truth tables over normalised atoms with finite universes for the URL components; values that are closed over one URL "
+        "component or over (host, port) are decided by evaluating them with the checker's own expression evaluator on a fixed "
+        "representative set covering every combination of the atoms of the specification (degenerate / empty / doubled "
+        "separators, valid, reserved and non-UTF-8 escapes, upper-case and non-ASCII letters; every byte value for the quoting "
+        "function).  (a) the exception-escape set of set_request_uri (closure over UndecidedRemote.__new__, from_pathless_uri, "
+        "hostportsplit, hostportjoin) is contained in {MalformedUrlError, IncompleteUrlError}, with the lemma DIGIT-LABEL "
+        "re-checked on the summarised form; (b) a fragment, a missing scheme, a missing host or user-info are rejected with the "
+        "documented class before anything is stored, a non-CoAP scheme stores Proxy-Uri and nothing else, the port is read "
+        "(hence validated) and remote, Uri-Path and Uri-Query are set on every accepted CoAP path; (c) Uri-Path / Uri-Query are "
+        "the strictly percent-decoded split('/')[1:] / split('&') of the component and empty exactly for '', '/' / '', the "
+        "writer joins quoted segments with the same separators, the quoting function keeps exactly the bytes of its safe set, and "
+        "the safe sets never contain the separator, '%', '?', '#'; (d) Uri-Host is the strictly percent-decoded host passed "
+        "through the ASCII lower-casing table and is stored exactly when not opted out and the IP-literal predicate (bracketed, "
+        "or three dots / digits and dots only / every label <= 255) is false, the remote keeps scheme and netloc; (e) hostportjoin "
+        "brackets exactly hosts that contain ':' and are not bracketed, hostportsplit delegates to SplitResult, UndecidedRemote "
+        "normalises bracketed literals through ipaddress.ip_address and re-joins with hostportjoin.  Not decided: value-level "
+        "round-trip equality over Unicode beyond the representative set, RFC 3986 validity of host names."
     ),
-    rule_text="exception-escape analysis with one re-checked lemma, dominance of rejection guards on the CFG, constant evaluation of safe sets, reaching definitions, DNF comparison with reference predicates",
+    rule_text="symbolic summaries (outcomes) of the anchored functions, exception-escape analysis with one re-checked lemma, truth-table comparison of path conditions with reference predicates, finite-domain evaluation of component-closed values, constant evaluation of safe sets",
 )
 
 MSG = "message.Message."
@@ -34,6 +47,8 @@ SET = MSG + "set_request_uri"
 GET = MSG + "get_request_uri"
 URL_ERRORS = ("aiocoap.error.MalformedUrlError", "aiocoap.error.IncompleteUrlError")
 DIGITS_DOT = set("0123456789.")
+URLPARSE = ("urllib.parse.urlparse", "urllib.parse.urlsplit")
+P = "P__"  # canonical name of urlparse(<uri parameter>) in summarised expressions
 
 # external callees inside the escape region whose behaviour is tabulated (exc.EXT_RAISES plus the
 # entry below) or that cannot raise on the str/tuple values they are applied to here
@@ -41,93 +56,301 @@ BENIGN_EXTERNALS = {
     "all", "any", "str", "len", "isinstance", "bool", "tuple", "list", "set", "sorted", "repr", "min", "max",
     "enumerate", "zip", "range", "getattr", "hasattr", "super", "super.__new__", "super.__init__", "ord", "chr", "dict",
     "frozenset", "type", "cls", "print", "warnings.warn", "urllib.parse.SplitResult", "urllib.parse.unquote",
-    "urllib.parse.urlparse", "urllib.parse.urlsplit", "ipaddress.ip_address", "str.maketrans",
+    "urllib.parse.urlparse", "urllib.parse.urlsplit", "ipaddress.ip_address", "str.maketrans", "urllib.parse.unquote_plus", "bytes",
 }
 EXTRA_RAISES = {"urllib.parse.unquote": ["UnicodeDecodeError"]}  # errors="strict" on non-UTF-8 escapes
 
 
 # ---------------------------------------------------------------------------
-# shared anchors
+# expression utilities
 
 
-def _setter(ctx):
-    """(fi, cfg, name of the uri parameter, name of the local holding urlparse(uri))"""
-    fi = ctx.prog.func(SET)
-    p = params(fi)
-    ctx.need(len(p) >= 1, "set_request_uri has no uri parameter")
-    uri = p[0]
-    cands = []
-    for n in walk_no_nested(fi.node):
-        if isinstance(n, ast.Assign) and len(n.targets) == 1 and isinstance(n.targets[0], ast.Name) and isinstance(n.value, ast.Call):
-            if ext_name(fi.module, n.value) in ("urllib.parse.urlparse", "urllib.parse.urlsplit"):
-                a = n.value.args
-                if len(a) >= 1 and isinstance(a[0], ast.Name) and a[0].id == uri:
-                    cands.append(n.targets[0].id)
-    ctx.need(len(cands) == 1, "set_request_uri: expected exactly one local bound to urlparse(<uri parameter>)")
-    ctx.need(len(writes_to_name(fi.node, cands[0])) == 1 and not writes_to_name(fi.node, uri), "set_request_uri: the parsed URL or the uri parameter is re-bound")
-    return fi, cfg_of(fi), uri, cands[0]
+def rewrite(e, fn):
+    """Bottom-up copy of expression e; fn(node) -> replacement or None."""
+    if isinstance(e, list):
+        return [rewrite(x, fn) for x in e]
+    if not isinstance(e, ast.AST):
+        return e
+    if isinstance(e, (ast.expr_context, ast.operator, ast.unaryop, ast.boolop, ast.cmpop)):
+        return e
+    kw = {}
+    changed = False
+    for f, v in ast.iter_fields(e):
+        nv = rewrite(v, fn) if isinstance(v, (ast.AST, list)) else v
+        if nv is not v and not (isinstance(v, list) and all(a is b for a, b in zip(v, nv)) and len(v) == len(nv)):
+            changed = True
+        kw[f] = nv
+    if changed:
+        c = type(e)(**kw)
+        for a in ("_src", "_mod", "_local", "_loop", "_closure", "_opaque"):
+            if hasattr(e, a):
+                setattr(c, a, getattr(e, a))
+    else:
+        c = e
+    r = fn(c)
+    return c if r is None else r
 
 
-def _is_comp(fi, P, e, attr):
-    return chain(e) == "%s.%s" % (P, attr)
+def pexpr(src):
+    """Reference expression written over P__ (and other free local names)."""
+    e = ast.parse(src, mode="eval").body
+    for n in ast.walk(e):
+        if isinstance(n, ast.Name):
+            n._local = True
+    return e
 
 
-def _opt_stores(fi):
-    """[(option name, Assign node)] for `self.opt.<name> = value`; plus ('@remote', node) for `self.remote = value`."""
-    out = []
-    for n in walk_no_nested(fi.node):
-        if isinstance(n, (ast.Assign, ast.AugAssign, ast.AnnAssign)):
-            tgts = n.targets if isinstance(n, ast.Assign) else [n.target]
-            for t in tgts:
-                for tt in (t.elts if isinstance(t, (ast.Tuple, ast.List)) else [t]):
-                    c = chain(tt) or ""
-                    parts = c.split(".")
-                    if parts[:2] == ["self", "opt"] and len(parts) == 3:
-                        out.append((parts[2], n))
-                    elif c == "self.remote":
-                        out.append(("@remote", n))
-        elif isinstance(n, ast.Call) and chain(n.func) == "setattr" and n.args and chain(n.args[0]) == "self.opt":
-            out.append(("@setattr", n))
-    return out
+def local_name(name):
+    n = ast.Name(id=name, ctx=ast.Load())
+    n._local = True
+    return n
 
 
-def _classify(ctx, fi, P, e):
-    """(kind, positive): the branch condition `e` being true means fact `kind`
-    has truth value `positive`.  kinds: fragment scheme host username password
-    coap.  None when e is not one of the URL-component tests."""
-    comp_of = {"fragment": "fragment", "scheme": "scheme", "hostname": "host", "username": "username", "password": "password"}
-    c = chain(e)
-    if c and c.startswith(P + ".") and c[len(P) + 1:] in comp_of:
-        return comp_of[c[len(P) + 1:]], True
-    if isinstance(e, ast.Compare) and len(e.ops) == 1:
-        op, l, r = e.ops[0], e.left, e.comparators[0]
-        lc = chain(l)
-        if lc and lc.startswith(P + ".") and lc[len(P) + 1:] in comp_of:
-            kind = comp_of[lc[len(P) + 1:]]
-            if isinstance(op, (ast.In, ast.NotIn)) and kind == "scheme":
-                v = try_eval(ctx.prog, fi.module, r)
-                if isinstance(v, (list, tuple, set, frozenset)) and v and all(isinstance(s, str) and s.startswith("coap") for s in v):
-                    return "coap", isinstance(op, ast.In)
-                return None
-            if isinstance(r, ast.Constant):
-                empty_ok = (r.value == "" and kind in ("fragment", "scheme", "host")) or (r.value is None and kind in ("host", "username", "password"))
-                if empty_ok and isinstance(op, (ast.Eq, ast.Is)):
-                    return kind, False
-                if empty_ok and isinstance(op, (ast.NotEq, ast.IsNot)):
-                    return kind, True
-    return None
+def contains_name(e, name):
+    return any(isinstance(n, ast.Name) and n.id == name for n in ast.walk(e))
 
 
-def _facts(ctx, fi, cfg, P, nid):
-    """{(kind, truth): pseudo node id} for the classified guards dominating nid; [unclassified guards]."""
-    facts, other = {}, []
-    for e, pol, pid in cfg.guards(nid):
-        k = _classify(ctx, fi, P, e)
-        if k is None:
-            other.append((e, pol, pid))
-        else:
-            facts[(k[0], k[1] == pol)] = pid
-    return facts, other
+# ---------------------------------------------------------------------------
+# the summarised setter
+
+
+class SetterModel:
+    """Outcomes of set_request_uri with every `urlparse(<uri parameter>)`
+    replaced by the canonical name P__, the condition space over the URL
+    components, and the reference facts."""
+
+    def __init__(self, ctx, prog=None):
+        prog = prog or ctx.prog
+        self.ctx = ctx
+        self.prog = prog
+        self.fi = fi = prog.func(SET)
+        p = params(fi)
+        ctx.need(len(p) >= 1, "set_request_uri has no uri parameter")
+        self.uri = p[0]
+        self.optout = [x for x in p[1:] + [a.arg for a in fi.node.args.kwonlyargs]]
+        self.ex = Exec(prog)
+        self.ev = Evaluator(prog)
+        raw = self.ex.run(fi)
+        self.nP = 0
+        self.outs = [self._canon_state(o) for o in raw]
+        ctx.need(self.nP > 0, "set_request_uri: no urlparse(<uri parameter>) found")
+        for o in self.outs:
+            for e in o.exprs():
+                for n in ast.walk(e):
+                    if isinstance(n, ast.Call) and qual_name(prog, fi.module, n) in URLPARSE:
+                        raise AnalysisError("%s: set_request_uri parses something other than its uri parameter: `%s`" % (ctx.clause, txt(n, 80)))
+        self.coap = self.ev.try_ev(ast.Name(id="coap_schemes", ctx=ast.Load()), fi.module)
+        ctx.need(isinstance(self.coap, (list, tuple, set, frozenset)) and len(self.coap) >= 1 and all(isinstance(s, str) and s.startswith("coap") for s in self.coap),
+                 "message.coap_schemes does not evaluate to a list of coap* scheme names")
+        self.sp = BoolSpace(lambda e: self.ev.ev(e, fi.module, {}), domain=self._domain, special=self._special)
+        self._octet_cache = {}
+        # reference facts
+        self.FRAG = self.sp.formula(pexpr("P__.fragment"))
+        self.SCHEME = self.sp.formula(pexpr("P__.scheme"))
+        self.HOST = self.sp.formula(pexpr("P__.hostname"))
+        self.USER = self.sp.formula(pexpr("P__.username"))
+        self.PW = self.sp.formula(pexpr("P__.password"))
+        scheme_e = pexpr("P__.scheme")
+        self.COAP = self.sp.formula(ast.Compare(left=scheme_e, ops=[ast.In()], comparators=[ast.Constant(value=tuple(sorted(self.coap)))]))
+        self.LIT = ("or", (("atom", "IPLIT:bracket"), ("and", (self.sp.formula(pexpr("P__.hostname.count('.') == 3")), ("atom", "IPLIT:digits"), ("atom", "IPLIT:octets")))))
+
+    # -- canonicalisation --------------------------------------------------------
+    def _is_P(self, n):
+        return isinstance(n, ast.Call) and qual_name(self.prog, self.fi.module, n) in URLPARSE and len(n.args) == 1 and not n.keywords \
+            and isinstance(n.args[0], ast.Name) and n.args[0].id == self.uri and getattr(n.args[0], "_local", False)
+
+    def canon(self, e):
+        def fn(n):
+            if self._is_P(n):
+                self.nP += 1
+                c = local_name(P)
+                c._src = src_of(n)
+                return c
+            return None
+        return rewrite(e, fn)
+
+    def _canon_state(self, o):
+        s = St({}, [])
+        s.end = o.end
+        s.flags = set(o.flags)
+        if o.end is not None and isinstance(o.end[1], ast.AST):
+            s.end = (o.end[0], self.canon(o.end[1]), o.end[2])
+        for ev in o.trace:
+            if ev[0] == "cond":
+                e = self.canon(ev[1])
+                s.trace.append(("cond", e, ev[2], ev[3], dump(e)))
+            elif ev[0] == "store":
+                s.trace.append(("store", ev[1], self.canon(ev[2]) if ev[2] is not None else None, ev[3], ev[4]))
+            elif ev[0] == "eval":
+                s.trace.append(("eval", self.canon(ev[1]), None, ev[3]))
+            else:
+                s.trace.append(ev)
+        return s
+
+    # -- condition space -----------------------------------------------------------------
+    @staticmethod
+    def comp(e):
+        """name of the URL component `P__.<name>`, or None"""
+        if isinstance(e, ast.Attribute) and isinstance(e.value, ast.Name) and e.value.id == P:
+            return e.attr
+        return None
+
+    def _domain(self, e):
+        # urllib facts: the six components of urlparse(str) are str (never None); hostname is None when absent (never '');
+        # username / password are None when absent and may be ''
+        c = self.comp(e)
+        if c in ("scheme", "netloc", "path", "params", "query", "fragment"):
+            return [""]
+        if c == "hostname":
+            return [None]
+        if c in ("username", "password"):
+            return [None, ""]
+        return None
+
+    def _const(self, e):
+        return self.ev.try_ev(e, self.fi.module, {}, default=_NOVAL)
+
+    def _special(self, e):
+        """The atoms of the IP-literal predicate, whatever their spelling."""
+        # bracketed netloc
+        if isinstance(e, ast.Call) and isinstance(e.func, ast.Attribute) and e.func.attr == "startswith" and self.comp(e.func.value) == "netloc" and len(e.args) == 1 and not e.keywords:
+            if self._const(e.args[0]) == "[":
+                return ("atom", "IPLIT:bracket")
+        if isinstance(e, ast.Compare) and len(e.ops) == 1 and isinstance(e.ops[0], (ast.Eq, ast.NotEq)):
+            for a, b in ((e.left, e.comparators[0]), (e.comparators[0], e.left)):
+                if isinstance(a, ast.Subscript) and self.comp(a.value) == "netloc" and isinstance(a.slice, ast.Slice) and a.slice.lower is None and a.slice.step is None \
+                        and a.slice.upper is not None and self._const(a.slice.upper) == 1 and self._const(b) == "[":
+                    f = ("atom", "IPLIT:bracket")
+                    return f if isinstance(e.ops[0], ast.Eq) else ("not", f)
+                # len(H.split('.')) == n  <=>  H.count('.') == n - 1
+                if isinstance(a, ast.Call) and chain(a.func) == "len" and len(a.args) == 1 and isinstance(a.args[0], ast.Call) and isinstance(a.args[0].func, ast.Attribute) \
+                        and a.args[0].func.attr == "split" and len(a.args[0].args) == 1 and isinstance(self._const(b), int) and isinstance(self._const(a.args[0].args[0]), str):
+                    h, sep = a.args[0].func.value, a.args[0].args[0]
+                    cnt = ast.Call(func=ast.Attribute(value=h, attr="count", ctx=ast.Load()), args=[ast.Constant(value=self._const(sep))], keywords=[])
+                    return self.sp.formula(ast.Compare(left=cnt, ops=[e.ops[0]], comparators=[ast.Constant(value=self._const(b) - 1)]))
+        # quantified atoms over the host
+        q = self._quantified(e)
+        if q is not None:
+            kind, var, it, elt = q  # all(elt for var in it)
+            pol = True
+            if kind == "any":
+                elt, pol = mk_not(elt), False
+            f = None
+            if self.comp(it) == "hostname":
+                d = self._member_set(elt, var)
+                if d is not None and d == DIGITS_DOT:
+                    f = ("atom", "IPLIT:digits")
+            elif isinstance(it, ast.Call) and isinstance(it.func, ast.Attribute) and it.func.attr == "split" and self.comp(it.func.value) == "hostname" \
+                    and len(it.args) == 1 and not it.keywords and self._const(it.args[0]) == ".":
+                if self._octet_predicate(elt, var):
+                    f = ("atom", "IPLIT:octets")
+            if f is not None:
+                return f if pol else ("not", f)
+        # set(H) <= set(D)
+        if isinstance(e, ast.Compare) and len(e.ops) == 1 and isinstance(e.ops[0], ast.LtE):
+            a, b = e.left, e.comparators[0]
+            if isinstance(a, ast.Call) and chain(a.func) in ("set", "frozenset") and len(a.args) == 1 and self.comp(a.args[0]) == "hostname":
+                d = self._const(b)
+                if isinstance(d, (set, frozenset)) and set(d) == DIGITS_DOT:
+                    return ("atom", "IPLIT:digits")
+        if isinstance(e, ast.Call) and isinstance(e.func, ast.Attribute) and e.func.attr == "issubset" and len(e.args) == 1 and not e.keywords:
+            a = e.func.value
+            if isinstance(a, ast.Call) and chain(a.func) in ("set", "frozenset") and len(a.args) == 1 and self.comp(a.args[0]) == "hostname":
+                d = self._const(e.args[0])
+                if isinstance(d, (str, set, frozenset, list, tuple)) and set(d) == DIGITS_DOT:
+                    return ("atom", "IPLIT:digits")
+        return None
+
+    @staticmethod
+    def _quantified(e):
+        if isinstance(e, ast.Call) and isinstance(e.func, ast.Name) and e.func.id in ("all", "any") and len(e.args) == 1 and not e.keywords \
+                and isinstance(e.args[0], (ast.GeneratorExp, ast.ListComp)) and len(e.args[0].generators) == 1:
+            g = e.args[0].generators[0]
+            if isinstance(g.target, ast.Name) and not g.is_async:
+                elt = e.args[0].elt
+                if g.ifs:
+                    # all(c for x in it if f) == all(not f or c ...); any(c ... if f) == any(f and c ...)
+                    f = mk_and(g.ifs)
+                    elt = mk_or([mk_not(f), elt]) if e.func.id == "all" else mk_and([f, elt])
+                return e.func.id, g.target.id, g.iter, elt
+        return None
+
+    def _member_set(self, elt, var):
+        """elt == `var in D` (any spelling of the polarity) -> set(D)"""
+        pol = True
+        while isinstance(elt, ast.UnaryOp) and isinstance(elt.op, ast.Not):
+            elt, pol = elt.operand, not pol
+        if isinstance(elt, ast.Compare) and len(elt.ops) == 1 and isinstance(elt.ops[0], (ast.In, ast.NotIn)) and isinstance(elt.left, ast.Name) and elt.left.id == var:
+            if isinstance(elt.ops[0], ast.NotIn):
+                pol = not pol
+            d = self._const(elt.comparators[0])
+            if pol and isinstance(d, (str, tuple, list, set, frozenset)) and d and all(isinstance(c, str) and len(c) == 1 for c in d):
+                return set(d)
+        return None
+
+    def _octet_predicate(self, elt, var):
+        """Does `elt` (over the label `var`, a string of decimal digits) say "a non-empty label of value <= 255"?
+        Decided by evaluating it on every digit string of length 0..4: for up to three digits it must equal
+        (label != '' and int(label) <= 255); for four digits it may only accept values <= 255 (a length limit of
+        three or more digits removes no label <= 255 written without leading zeros)."""
+        k = dump(elt) + "|" + var
+        if k in self._octet_cache:
+            return self._octet_cache[k]
+        ok = True
+        try:
+            for n in range(0, 5):
+                for v in range(10 ** n if n else 1):
+                    x = "%0*d" % (n, v) if n else ""
+                    try:
+                        got = bool(self.ev.ev(elt, self.fi.module, {var: x}))
+                    except EvalRaised:
+                        got = None
+                    want = x != "" and int(x) <= 255
+                    if n <= 3:
+                        if got is not want:
+                            ok = False
+                    elif got is None or (got and not want):
+                        ok = False
+                    if not ok:
+                        break
+                if not ok:
+                    break
+        except NormError:
+            ok = False
+        self._octet_cache[k] = ok
+        return ok
+
+    # -- outcome classes -----------------------------------------------------------------------
+    def conj(self, o, upto=None):
+        return self.sp.conj(o.conds(upto))
+
+    def plain(self):
+        """outcomes on which no exception handler was entered"""
+        return [o for o in self.outs if not o.exceptional]
+
+    def accepted(self):
+        return [o for o in self.outs if o.normal]
+
+    def arm(self, o):
+        """'coap' / 'other' / None (the scheme is not decided on the path)"""
+        c = self.conj(o)
+        if self.sp.implies(c, self.COAP):
+            return "coap"
+        if self.sp.implies(c, ("not", self.COAP)):
+            return "other"
+        return None
+
+
+_NOVAL = object()
+
+
+def _model(ctx):
+    m = getattr(ctx, "_c16_model", None)
+    if m is None:
+        m = SetterModel(ctx)
+        ctx._c16_model = m
+    m.ctx = ctx
+    return m
 
 
 def _is_url_error(prog, cls):
@@ -138,91 +361,111 @@ def _is_url_error(prog, cls):
 # C16.a
 
 
-def _int_label_lemma(ctx, fi):
-    """Lemma DIGIT-LABEL (premise (2b): an earlier operand bounds len(x) by at most 4300,
-    CPython's int-max-str-digits): `int(x)` cannot raise when (1) x ranges over
-    S.split(".") in a comprehension, (2) an earlier operand of the `and`
-    holding the int() call (inside the comprehension) excludes the empty label
-    (`x != ""` / `x`), and (3) an earlier operand of an enclosing `and`, or a
-    dominating branch condition, is `all(c in D for c in S)` with D evaluating
-    to a subset of the decimal digits and '.', for the same S.  Returns the
-    list of int() call nodes for which the premise holds."""
-    cfg = cfg_of(fi)
-    par = cfg.parent
+def _only_referenced_from(prog, helper, allowed):
+    """Every reference to the helper's name in the package lies in one of the allowed functions."""
+    name = helper.name
+    refs = set()
+    for m in prog.modules.values():
+        for n in ast.walk(m.tree):
+            if (isinstance(n, ast.Name) and n.id == name and isinstance(n.ctx, ast.Load)) or (isinstance(n, ast.Attribute) and n.attr == name):
+                refs.add(id(n))
+    for f in prog.funcs.values():
+        for x in walk_no_nested(f.node):
+            if id(x) in refs:
+                if f.qn not in allowed:
+                    return False
+                refs.discard(id(x))
+    return not refs  # anything left is referenced at module / class level
+
+
+def _int_label_lemma(ctx, M):
+    """Lemma DIGIT-LABEL: `int(x)` cannot raise when, at the moment it is evaluated,
+    (1) x ranges over S.split(".") (comprehension variable, or the variable of a
+    search loop, which the summary turns into any(..)), (2) x is known to be
+    non-empty, (3) len(x) is bounded by at most 4300 (CPython's int-max-str-digits)
+    and (4) `all(c in D for c in S)` is known to hold for the same S with D a
+    subset of the decimal digits and '.'.  "Known" = an earlier operand of an
+    enclosing `and` (true) / `or` (false), the test of an enclosing conditional
+    expression, an `if` clause of the comprehension, or a condition of the path
+    on which the expression is evaluated -- all read off the summarised form of
+    set_request_uri, so the premises may sit in the function itself or in any
+    helper executed in place.  Returns the int() call nodes of the analysed tree
+    all of whose occurrences in the summary satisfy the premises."""
+    N = Normalizer()
+    occ = {}  # id(original call) -> [original node, all proven]
+
+    def is_int(n):
+        return isinstance(n, ast.Call) and isinstance(n.func, ast.Name) and n.func.id == "int" and len(n.args) == 1 and not n.keywords
+
+    def digits_fact(e, pol, S):
+        q = M._quantified(e)
+        if q is None:
+            return False
+        kind, var, it, elt = q
+        if kind == "any":
+            elt, pol = mk_not(elt), not pol
+        if not pol or dump(it) != dump(S):
+            return False
+        d = M._member_set(elt, var)
+        return d is not None and d <= DIGITS_DOT
+
+    for o in M.outs:
+        prefix = []
+        for ev in o.trace:
+            e = ev[1] if ev[0] in ("cond", "eval") else (ev[2] if ev[0] == "store" else None)
+            if e is not None:
+                for call, facts, binders in contexts(e, is_int):
+                    rec = occ.setdefault(id(src_of(call)), [src_of(call), True])
+                    arg = call.args[0]
+                    ok = False
+                    if isinstance(arg, ast.Name) and binders and binders[-1][0] is not None:
+                        tgt, it = binders[-1]
+                        if isinstance(tgt, ast.Name) and tgt.id == arg.id and isinstance(it, ast.Call) and isinstance(it.func, ast.Attribute) and it.func.attr == "split" \
+                                and len(it.args) == 1 and not it.keywords and M._const(it.args[0]) == ".":
+                            S = it.func.value
+                            x = arg.id
+                            known = flat_facts(list(prefix) + list(facts))
+                            nonempty = bounded = digits = False
+                            for fe, pol in known:
+                                if isinstance(fe, ast.Name) and fe.id == x and pol:
+                                    nonempty = True
+                                    continue
+                                if digits_fact(fe, pol, S):
+                                    digits = True
+                                    continue
+                                try:
+                                    c_ = N.cmp(fe)
+                                    if not pol:
+                                        c_ = N.negate(c_)
+                                except Exception:
+                                    continue
+                                if c_ == N.cmp(ast.parse("%s != ''" % x, mode="eval").body) or c_ == N.cmp(ast.parse("len(%s) >= 1" % x, mode="eval").body):
+                                    nonempty = True
+                                if c_[0] == "lt":
+                                    p_ = c_[1]
+                                    k = p_.t.get((), None)
+                                    la = (("len(%s)" % x, 1),)
+                                    if set(p_.t) == {la, ()} and p_.t[la] == 1 and k is not None and -4301 <= k < 0:
+                                        bounded = True  # len(x) + k < 0, i.e. len(x) <= -k - 1 <= 4300
+                                    if set(p_.t) == {la, ()} and p_.t[la] == -1 and k is not None and k >= 0:
+                                        nonempty = True  # k - len(x) < 0, i.e. len(x) > k >= 0
+                            ok = nonempty and bounded and digits
+                    if not ok:
+                        rec[1] = False
+            if ev[0] == "cond":
+                prefix.append((ev[1], ev[2]))
     proven = []
-    for call in [n for n in walk_no_nested(fi.node) if isinstance(n, ast.Call) and chain(n.func) == "int" and len(n.args) == 1 and isinstance(n.args[0], ast.Name)]:
-        x = call.args[0].id
-        # climb to the comprehension binding x, collecting earlier `and` operands on the way
-        earlier_inner, earlier_outer = [], []
-        comp = None
-        child, p = call, par.get(id(call))
-        while p is not None and not isinstance(p, ast.stmt):
-            if isinstance(p, (ast.Lambda, ast.FunctionDef, ast.AsyncFunctionDef)):
-                comp = None
-                break
-            if isinstance(p, ast.BoolOp) and isinstance(p.op, ast.And):
-                idx = [i for i, v in enumerate(p.values) if v is child]
-                if idx:
-                    (earlier_outer if comp is not None else earlier_inner).extend(p.values[: idx[0]])
-            if comp is None and isinstance(p, (ast.GeneratorExp, ast.ListComp, ast.SetComp)):
-                g = p.generators
-                if len(g) == 1 and isinstance(g[0].target, ast.Name) and g[0].target.id == x and child is p.elt:
-                    comp = p
-                    earlier_inner.extend(g[0].ifs)
-                else:
-                    break
-            child, p = p, par.get(id(p))
-        if comp is None:
+    allowed = {M.fi.qn} | set(M.ex.inlined)
+    for node, ok in occ.values():
+        if not ok:
             continue
-        it = comp.generators[0].iter
-        b = match("$S.split($sep)", it)
-        if b is None or try_eval(ctx.prog, fi.module, b["sep"]) != ".":
+        owner = [f for f in M.prog.funcs.values() if f.qn in allowed and any(x is node for x in ast.walk(f.node))]
+        if not owner:
             continue
-        S = b["S"]
-        nonempty = False
-        for e in earlier_inner:
-            if isinstance(e, ast.Name) and e.id == x:
-                nonempty = True
-            elif isinstance(e, ast.Compare) and len(e.ops) == 1 and isinstance(e.ops[0], ast.NotEq):
-                l, r = e.left, e.comparators[0]
-                if (isinstance(l, ast.Name) and l.id == x and isinstance(r, ast.Constant) and r.value == "") or (isinstance(r, ast.Name) and r.id == x and isinstance(l, ast.Constant) and l.value == ""):
-                    nonempty = True
-        if not nonempty:
-            continue
-        # CPython refuses int() on more than 4300 digits: an earlier operand must bound the label's length
-        Nl = Normalizer()
-        bounded = False
-        for e in earlier_inner:
-            try:
-                c_ = Nl.cmp(e)
-            except NormError:
-                continue
-            if c_[0] == "lt" and any(c_ == Nl.cmp(ast.parse("len(%s) <= %d" % (x, k), mode="eval").body) for k in (1, 2, 3, 4, 5, 8, 10, 16, 100, 1000, 4300)):
-                bounded = True
-            elif c_[0] == "lt":
-                p_ = c_[1]
-                k = p_.t.get((), None)
-                if set(p_.t) == {(("len(%s)" % x, 1),), ()} and p_.t[(("len(%s)" % x, 1),)] == 1 and k is not None and -4301 <= k < 0:
-                    bounded = True
-        if not bounded:
-            continue
-        conds = list(earlier_outer)
-        root = S
-        while isinstance(root, ast.Attribute):
-            root = root.value
-        stable = isinstance(root, ast.Name) and len(writes_to_name(fi.node, root.id)) <= 1
-        if stable:
-            for nid in cfg.locate(call):
-                conds.extend(e for e, pol, _ in cfg.guards(nid) if pol)
-        digits = False
-        for e in conds:
-            m = match("all($c in $D for $c in $T)", e)
-            if m is not None and same(m["T"], S):
-                d = try_eval(ctx.prog, fi.module, m["D"])
-                if isinstance(d, (str, tuple, list, set, frozenset)) and d and set(d) <= DIGITS_DOT:
-                    digits = True
-        if digits:
-            proven.append(call)
+        own = min(owner, key=lambda f: (f.node.end_lineno or 0) - f.node.lineno)
+        if own.qn != M.fi.qn and not _only_referenced_from(M.prog, own, allowed):
+            continue  # the helper is also reached from elsewhere: its int() is not covered by this summary
+        proven.append(node)
     return proven
 
 
@@ -237,17 +480,30 @@ def _origin_node(fi, esc):
 
 @R.clause("C16.a", "escape(set_request_uri) is contained in {MalformedUrlError, IncompleteUrlError}")
 def a(ctx):
-    fi = ctx.prog.func(SET)
+    prog = ctx.prog
+    # the escape analysis follows direct calls only: local lambdas / functools.partial / map(f, ..) in the region are
+    # first applied at their uses (behaviour-preserving source rewrite, analysed as a program of its own)
+    region = {prog.func(SET).module.name} | {prog.func(x).module.name for x in ("util.hostportsplit", "util.hostportjoin", "util.uri.quote_factory")}
+    ov = callable_normal_form(prog, sorted(region))
+    if ov:
+        merged = dict(getattr(prog, "overrides", {}) or {})
+        merged.update(ov)
+        prog = Program(prog.root, overrides=merged)
+        ctx.note("local callables used as values were applied at their uses before the escape analysis: %s" % sorted(ov))
+        M = SetterModel(ctx, prog)
+    else:
+        M = _model(ctx)
+    fi = prog.func(SET)
     for anchor in ("message.UndecidedRemote.__new__", "message.UndecidedRemote.from_pathless_uri", "util.hostportsplit", "util.hostportjoin"):
-        ctx.prog.func(anchor)
+        prog.func(anchor)
     for c in ("error.MalformedUrlError", "error.IncompleteUrlError"):
-        ctx.prog.cls(c)
-    EA = EscapeAnalysis(ctx.prog, ext_raises=EXTRA_RAISES)
-    proven = _int_label_lemma(ctx, fi)
+        prog.cls(c)
+    EA = EscapeAnalysis(prog, ext_raises=EXTRA_RAISES)
+    proven = _int_label_lemma(ctx, M)
     for call in proven:
         EA.dead_nodes.add(id(call))
-        ctx.note("lemma DIGIT-LABEL applied to `%s` in set_request_uri (premise re-checked: non-empty label of a digits-and-dots string; "
-                 "assumes int() is total on non-empty decimal strings, i.e. CPython's int-max-str-digits limit is not modelled)" % stmt_text(call))
+        ctx.note("lemma DIGIT-LABEL applied to `%s` reached from set_request_uri (premise re-checked on the summarised form: non-empty label of bounded length of a "
+                 "digits-and-dots string; assumes int() is total on non-empty decimal strings of at most 4300 digits)" % stmt_text(call))
     try:
         escs = EA.escapes(fi)
     except RecursionError:
@@ -261,10 +517,10 @@ def a(ctx):
     n_allowed = 0
     for e in sorted(escs, key=lambda e: (e.func, e.line, e.cls)):
         ctx.need(not e.cls.startswith("?"), "raise of a class the analysis cannot name: %r" % (e,))
-        ofi = ctx.prog.funcs.get("aiocoap." + e.func)
+        ofi = prog.funcs.get("aiocoap." + e.func)
         ctx.need(ofi is not None, "origin function %s of an escape is not in the program model" % e.func)
         node = _origin_node(ofi, e)
-        ok = _is_url_error(ctx.prog, e.cls)
+        ok = _is_url_error(prog, e.cls)
         n_allowed += ok
         ctx.ob("an exception leaving set_request_uri is a documented URL error", ok, ofi, node if node is not None else ofi.node,
                detail="%s raised at `%s`%s" % (e.cls, e.text, (" reached via " + " > ".join(e.via)) if e.via else ""),
@@ -284,564 +540,811 @@ def a(ctx):
 # C16.b
 
 REJECTIONS = (
-    # fact that must hold at a store, what the other side must raise, wording
-    (("fragment", False), "aiocoap.error.MalformedUrlError", "a URI with a fragment"),
-    (("scheme", True), "aiocoap.error.IncompleteUrlError", "a reference without a scheme"),
-    (("host", True), "aiocoap.error.MalformedUrlError", "a CoAP URI without a host"),
-    (("username", False), "aiocoap.error.MalformedUrlError", "a URI with a user name"),
-    (("password", False), "aiocoap.error.MalformedUrlError", "a URI with a password"),
+    # key, what the URI lacks / has, class it must be rejected with
+    ("fragment", "a URI with a fragment", "aiocoap.error.MalformedUrlError"),
+    ("scheme", "a reference without a scheme", "aiocoap.error.IncompleteUrlError"),
+    ("host", "a CoAP URI without a host", "aiocoap.error.MalformedUrlError"),
+    ("username", "a URI with a user name", "aiocoap.error.MalformedUrlError"),
+    ("password", "a URI with a password", "aiocoap.error.MalformedUrlError"),
 )
 
 
-def _rejection_ok(ctx, fi, cfg, pseudo, want_cls):
-    """The other outcome of the guard never reaches the normal exit and only raises want_cls."""
-    op = sibling(cfg, pseudo)
-    if op is None or not side_rejects(cfg, op):
-        return False, "the other outcome of the test can return normally"
-    rs = raises_from(cfg, op)
-    classes = sorted({raised_class(ctx.prog, fi, r) or "?" for r in rs})
-    ok = bool(rs) and all(c != "?" and ctx.prog.is_subclass(c, want_cls) for c in classes)
-    return ok, "the other outcome raises %s" % classes
+def _store_label(target):
+    return "self.remote" if target == "self.remote" else target.replace("self.opt.", "opt.")
+
+
+def _is_field_store(target):
+    return target == "self.remote" or target.startswith("self.opt.") or target.startswith("self.opt[")
 
 
 @R.clause("C16.b", "rejection guards (fragment, scheme, host, user-info) dominate every option store; a non-CoAP scheme stores Proxy-Uri only; the port is read on every CoAP path")
 def b(ctx):
-    fi, cfg, uri, P = _setter(ctx)
-    stores = _opt_stores(fi)
-    ctx.need(not any(k == "@setattr" for k, _ in stores), "set_request_uri stores options through setattr(): outside the rule's vocabulary")
-    ctx.floor("option / remote stores in set_request_uri", len(stores), 5)
-    coap_stores, proxy_stores = [], []
-    for name, st in stores:
-        nid = cfg.loc1(st)
-        facts, _ = _facts(ctx, fi, cfg, P, nid)
-        if ("coap", False) in facts:
-            proxy_stores.append((name, st, nid, facts))
-        else:
-            coap_stores.append((name, st, nid, facts))
-    ctx.floor("stores on the CoAP arm", len(coap_stores), 4)
-    ctx.floor("stores on the non-CoAP (proxy) arm", len(proxy_stores), 1)
-    for name, st, nid, facts in coap_stores + proxy_stores:
-        on_proxy = ("coap", False) in facts
-        label = "self.remote" if name == "@remote" else "opt." + name
-        for fact, cls, what in REJECTIONS:
-            if on_proxy and fact[0] in ("host", "username", "password"):
+    M = _model(ctx)
+    fi, sp = M.fi, M.sp
+    for o in M.outs:
+        for ev in o.trace:
+            for e in ([ev[1]] if ev[0] in ("cond", "eval") else [ev[2]] if ev[0] == "store" and ev[2] is not None else []):
+                for n in ast.walk(e):
+                    if isinstance(n, ast.Call) and chain(n.func) == "setattr" and n.args and (chain(n.args[0]) or "").startswith("self"):
+                        raise AnalysisError("C16.b: set_request_uri stores options through setattr(): outside the rule's vocabulary")
+    # acceptability of the URI: OK[key] holds when the URI does not have the defect
+    OK = {"fragment": ("not", M.FRAG), "scheme": M.SCHEME, "host": M.HOST, "username": ("not", M.USER), "password": ("not", M.PW)}
+    coap_only = ("host", "username", "password")
+
+    def required(key):
+        f = OK[key]
+        return ("or", (("not", M.COAP), f)) if key in coap_only else f
+
+    # (1) every store to an option / the remote happens only after the rejecting tests have passed
+    sites = {}  # (id of the store statement, target) -> [node, target, {key: [ok, counterexample]}, arms]
+    for o in M.outs:
+        for i, target, val, node in o.stores():
+            if not _is_field_store(target):
                 continue
-            if fact not in facts:
-                ctx.ob("store of %s happens only after %s was rejected" % (label, what), False, fi, st, detail="no dominating test of that component with the required outcome")
+            rec = sites.setdefault((id(src_of(node)), target), [node, target, {}, set()])
+            pre = M.conj(o, upto=i)
+            arm = "coap" if sp.implies(pre, M.COAP) else ("other" if sp.implies(pre, ("not", M.COAP)) else None)
+            rec[3].add(arm)
+            for key, what, cls in REJECTIONS:
+                if arm == "other" and key in coap_only:
+                    continue
+                want = OK[key] if arm == "coap" or key not in coap_only else required(key)
+                cex = sp.counterexample(pre, want)
+                r = rec[2].setdefault(key, [True, None])
+                if cex is not None:
+                    r[0] = False
+                    r[1] = sp.show(cex)
+    ctx.floor("option / remote store sites in set_request_uri", len(sites), 5)
+    ctx.floor("store sites on the CoAP arm", len([1 for r in sites.values() if "coap" in r[3]]), 4)
+    ctx.floor("store sites on the non-CoAP (proxy) arm", len([1 for r in sites.values() if "other" in r[3]]), 1)
+    for node, target, res, arms in sites.values():
+        label = _store_label(target)
+        for key, what, cls in REJECTIONS:
+            if key not in res:
                 continue
-            ok, why = _rejection_ok(ctx, fi, cfg, facts[fact], cls)
-            ctx.ob("store of %s happens only after %s was rejected with %s" % (label, what, cls.split(".")[-1]), ok, fi, st, detail=why)
-        if not on_proxy:
-            ctx.ob("store of %s happens only for a scheme in coap_schemes" % label, ("coap", True) in facts, fi, st)
-    # proxy arm: Proxy-Uri := the uri parameter, nothing else
-    for name, st, nid, facts in proxy_stores:
-        v = st.value if isinstance(st, ast.Assign) else None
-        ctx.ob("a non-CoAP scheme stores Proxy-Uri (the complete URI) and nothing else", name == "proxy_uri" and isinstance(v, ast.Name) and v.id == uri, fi, st)
-    proxy_sides = sorted({f[("coap", False)] for _, _, _, f in proxy_stores})
-    for side in proxy_sides:
-        pn = [nid for name, _, nid, _ in proxy_stores if name == "proxy_uri"]
-        ctx.ob("every normal path of the non-CoAP arm stores Proxy-Uri", bool(pn) and cfg.must_pass(side, pn), fi, cfg.nodes[side].ast)
-        leaked = [st for name, st, nid, _ in coap_stores if nid in cfg.reach({side})]
-        ctx.ob("no Uri-* option or remote is stored on the non-CoAP arm", not leaked, fi, leaked[0] if leaked else cfg.nodes[side].ast)
-    # which schemes count as CoAP
-    coap_sides = sorted({f[("coap", True)] for _, _, _, f in coap_stores if ("coap", True) in f})
-    ctx.need(coap_sides, "set_request_uri: no test of the scheme against the CoAP scheme list found")
-    # the port is read on every normal CoAP path (its ValueError conversion is part of C16.a)
-    ports = [cfg.loc1(n) for n in walk_no_nested(fi.node) if isinstance(n, ast.Attribute) and n.attr == "port" and chain(n.value) == P and isinstance(n.ctx, ast.Load)]
-    for side in coap_sides:
-        ctx.ob("the port component is evaluated (and thereby validated) on every normal path of the CoAP arm", bool(ports) and cfg.must_pass(side, ports), fi, cfg.nodes[side].ast,
-               detail="%d read(s) of %s.port" % (len(ports), P), construct="%s.port" % P)
-        rem = [nid for name, _, nid, _ in coap_stores if name == "@remote"]
-        ctx.ob("the remote is set on every normal path of the CoAP arm", bool(rem) and cfg.must_pass(side, rem), fi, cfg.nodes[side].ast, construct="self.remote = ...")
+            ok, cex = res[key]
+            ctx.ob("store of %s happens only after %s was rejected" % (label, what), ok, fi, node,
+                   detail=None if ok else "reachable with: %s" % cex)
+        if target != "self.opt.proxy_uri":
+            ctx.ob("store of %s happens only for a scheme in coap_schemes" % label, arms == {"coap"}, fi, node)
+    # (2) each defect alone is rejected, with the documented class
+    plain = M.plain()
+    for key, what, cls in REJECTIONS:
+        others = [required(k) for k in OK if k != key]
+        only = ("and", tuple([("not", OK[key])] + others + ([M.COAP] if key in coap_only else [])))
+        hit = 0
+        for o in plain:
+            c = M.conj(o)
+            if not sp.sat(("and", (c, only))):
+                continue
+            hit += 1
+            node = o.end[2] if o.end is not None and o.end[2] is not None else fi.node
+            if o.normal:
+                ctx.ob("%s is rejected" % what, False, fi, node, detail="set_request_uri returns normally on the path: %s" % o.describe(), construct="accepts %s" % what)
+            else:
+                got = o.end[1]
+                ctx.ob("%s is rejected with %s" % (what, cls.split(".")[-1]), got is not None and ctx.prog.is_subclass(got, cls), fi, node, detail="raises %s" % got)
+        ctx.need(hit > 0, "set_request_uri: no path for %s found" % what)
+    # (3) what an accepted URI stores
+    acc = [o for o in M.accepted()]
+    n_coap = n_other = 0
+    for o in acc:
+        node = o.end[2] if o.end is not None and o.end[2] is not None else fi.node
+        if "partial" in o.flags:
+            ctx.ob("no exception handler of set_request_uri swallows the exception (invalid input is rejected, not accepted half-way)", False, fi, node,
+                   detail="path: %s" % o.describe(), construct="handler completes normally")
+            continue
+        c = M.conj(o)
+        cex = sp.counterexample(c, ("and", tuple(required(k) for k in OK)))
+        ctx.ob("set_request_uri returns normally only for a URI with scheme, without fragment and (CoAP) with host and without user-info", cex is None, fi, node,
+               detail=None if cex is None else "returns with: %s" % sp.show(cex), construct="normal return of set_request_uri")
+        field_stores = [(i, t, v, n) for i, t, v, n in o.stores() if _is_field_store(t)]
+        arm = M.arm(o)
+        if arm is None:
+            ctx.ob("what is stored depends on whether the scheme is a CoAP scheme", not field_stores, fi, field_stores[0][3] if field_stores else node,
+                   detail="path: %s" % o.describe(), construct="stores independent of the scheme")
+            continue
+        if arm == "other":
+            n_other += 1
+            okp = len(field_stores) == 1 and field_stores[0][1] == "self.opt.proxy_uri" and isinstance(field_stores[0][2], ast.Name) and field_stores[0][2].id == M.uri \
+                and getattr(field_stores[0][2], "_local", False)
+            ctx.ob("a non-CoAP scheme stores Proxy-Uri (the complete URI) and nothing else", okp, fi, field_stores[0][3] if field_stores else node,
+                   detail="stores: %s" % ["%s := %s" % (_store_label(t), txt(v, 60) if v is not None else "<deleted>") for _, t, v, _ in field_stores],
+                   construct="non-CoAP arm stores")
+            continue
+        n_coap += 1
+        reads_port = any(isinstance(n, ast.Attribute) and n.attr == "port" and isinstance(n.value, ast.Name) and n.value.id == P for e in o.exprs() for n in ast.walk(e))
+        ctx.ob("the port component is evaluated (and thereby validated) on every normal path of the CoAP arm", reads_port, fi, node, detail="path: %s" % o.describe(), construct="%s.port" % P)
+        ts = [t for _, t, _, _ in field_stores]
+        ctx.ob("the remote is set on every normal path of the CoAP arm", "self.remote" in ts, fi, node, construct="self.remote = ...")
         for opt in ("uri_path", "uri_query"):
-            sn = [nid for name, _, nid, _ in coap_stores if name == opt]
-            ctx.ob("opt.%s is (re)set on every normal path of the CoAP arm" % opt, bool(sn) and cfg.must_pass(side, sn), fi, cfg.nodes[side].ast, construct="self.opt.%s = ..." % opt)
+            ctx.ob("opt.%s is (re)set on every normal path of the CoAP arm" % opt, "self.opt.%s" % opt in ts, fi, node, construct="self.opt.%s = ..." % opt)
+    ctx.floor("accepted CoAP paths of set_request_uri", n_coap, 1)
+    ctx.floor("accepted non-CoAP paths of set_request_uri", n_other, 1)
 
 
 # ---------------------------------------------------------------------------
 # C16.c
 
+# representative component values: degenerate, plain, empty segments in every position, reserved characters,
+# valid / reserved / incomplete / non-UTF-8 escapes, '+' (not a space), ';' (no parameter splitting), non-ASCII text
+PATH_SAMPLES = {
+    "degenerate": ["", "/"],
+    "plain": ["/a", "/a/b", "/a/b/c/d", "//", "//a", "///a", "/a/", "/a//", "/a//b", "/a/b/", "/;p", "/a;b/c;d", "/a&b/c=d", "/+/a+b", "/a:b@c", "/."],
+    "escaped": ["/%41", "/%2F", "/a%2Fb/c", "/%2f%2F", "/a%20b/c%3Fd", "/%25", "/%C3%A9/x", "/é", "/%zz", "/%4", "/%", "/%E2%82%AC"],
+    "invalid": ["/%FF", "/a/%C3", "/%C3%28/b", "/ok/%80"],
+}
+QUERY_SAMPLES = {
+    "degenerate": [""],
+    "plain": ["a", "a&b", "a=b&c=d", "&", "a&", "&a", "a&&b", "&&", "a;b", "a/b?c", "a+b", "a=b=c", "a:b@c"],
+    "escaped": ["%26", "a%26b&c", "%3D=%3d", "a%20b", "%25", "%C3%A9&x", "é", "%zz", "%4", "%E2%82%AC=1"],
+    "invalid": ["%FF", "a&%C3", "%C3%28&b", "ok&%80"],
+}
+
+
+def _spec_segments(comp, s):
+    """RFC 7252 6.4 steps 8/9 on the component as urllib delivers it (raises UnicodeDecodeError for non-UTF-8 escapes)."""
+    if comp == "path":
+        raw = [] if s in ("", "/") else s.split("/")[1:]
+    else:
+        raw = [] if s == "" else s.split("&")
+    return [_up.unquote(x, errors="strict") for x in raw]
+
+
+def _component_closed(M, e, comp, var):
+    """e with P__.<comp> replaced by the local `var`; None when e reads anything else of the parsed URL or any other local."""
+    def fn(n):
+        if M.comp(n) == comp:
+            return local_name(var)
+        return None
+    r = rewrite(e, fn)
+    for n in ast.walk(r):
+        if isinstance(n, ast.Name) and n.id == P:
+            return None
+    return r
+
+
+def _applies(M, o, comp, var, value):
+    """Is the outcome's path condition compatible with the component having `value`?  Conditions that do not
+    depend on the component alone are left open."""
+    for e, pol in o.conds():
+        ce = _component_closed(M, e, comp, var)
+        if ce is None or not contains_name(ce, var):
+            continue
+        try:
+            v = M.ev.ev(ce, M.fi.module, {var: value})
+        except (NormError, EvalRaised):
+            continue
+        if bool(v) != pol:
+            return False
+    return True
+
+
+def _run_value(M, ce, var, value):
+    """('ok', list) / ('raise', exception class name) / ('?', reason)"""
+    try:
+        v = M.ev.ev(ce, M.fi.module, {var: value})
+    except EvalRaised as ex:
+        return ("raise", type(ex.exc).__name__)
+    except NormError as ex:
+        return ("?", str(ex))
+    if isinstance(v, (list, tuple)):
+        return ("ok", list(v))
+    return ("?", "value of type %s" % type(v).__name__)
+
 
 def _quote_functions(ctx):
-    """{name in message.py: (safe set string, defining Assign value)} for module constants built by quote_factory."""
+    """{name in message.py: (safe set string, defining Assign)} for module constants built by quote_factory."""
     mod = ctx.prog.module("message")
     out = {}
     for st in mod.tree.body:
         if isinstance(st, ast.Assign) and len(st.targets) == 1 and isinstance(st.targets[0], ast.Name) and isinstance(st.value, ast.Call):
             q = ctx.prog.resolve_in_module(mod, chain(st.value.func) or "?")
-            if q == "aiocoap.util.uri.quote_factory" and len(st.value.args) == 1 and not st.value.keywords:
-                out[st.targets[0].id] = (module_eval(ctx.prog, mod, st.value.args[0]), st)
+            if q == "aiocoap.util.uri.quote_factory":
+                qp = params(ctx.prog.func("util.uri.quote_factory"))
+                arg = st.value.args[0] if len(st.value.args) == 1 and not st.value.keywords else \
+                    (st.value.keywords[0].value if not st.value.args and len(st.value.keywords) == 1 and qp and st.value.keywords[0].arg == qp[0] else None)
+                if arg is not None and not isinstance(arg, ast.Starred):
+                    out[st.targets[0].id] = (module_eval(ctx.prog, mod, arg), st)
     return mod, out
 
 
-def _check_quote_factory(ctx):
-    """quote_factory(S) returns f with f(s) = every UTF-8 byte of s kept iff it is in {ord(c) for c in S}, else %XX."""
-    fi = ctx.prog.func("util.uri.quote_factory")
+def _utf8_cover():
+    """Strings whose UTF-8 encodings contain every byte value that can occur in UTF-8, each next to different neighbours."""
+    two = "".join(chr(i) for i in range(0x80, 0x800))
+    three = "ࠀ࿿က€퟿￿" + "".join(chr(0x1000 * k + 0x123) for k in range(1, 16) if not 0xD800 <= 0x1000 * k + 0x123 <= 0xDFFF)
+    four = "\U00010000\U0001f600\U0003ffff\U00040000\U000fffff\U00100000\U0010ffff"
+    ascii_all = "".join(chr(i) for i in range(0x80))
+    return ["", "a", "a/b?c&d=e#f%g", ascii_all, two, three + four, ascii_all[::-1] + "é/€&\U0001f600"]
+
+
+def _spec_quote(safe, s):
+    keep = {ord(c) for c in safe}
+    return "".join(chr(b) if b in keep else "%%%02X" % b for b in s.encode("utf8"))
+
+
+def _check_quote_factory(ctx, qf):
+    """quote_factory(S) returns f with f(s) = every UTF-8 byte of s kept iff it is in {ord(c) for c in S}, else %XX.
+    Decided by evaluating the summarised nested function on strings covering every UTF-8 byte value, for the
+    safe sets actually in use and three synthetic ones."""
+    prog = ctx.prog
+    fi = prog.func("util.uri.quote_factory")
     p = params(fi)
     a_ = fi.node.args
-    mutable = [d for d in list(a_.defaults) + [d for d in a_.kw_defaults if d is not None] if isinstance(d, (ast.Dict, ast.List, ast.Set, ast.Call, ast.DictComp, ast.ListComp))]
+    mutable = [d for d in list(a_.defaults) + [d for d in a_.kw_defaults if d is not None] if isinstance(d, (ast.Dict, ast.List, ast.Set, ast.Call, ast.DictComp, ast.ListComp, ast.SetComp))]
     if not ctx.ob("every quote function depends only on its own safe set (quote_factory keeps no state shared between the functions it returns)", not mutable, fi, mutable[0] if mutable else fi.node,
                   construct="quote_factory defaults: %s" % (stmt_text(mutable[0]) if mutable else "none mutable"), detail="mutable default argument is shared by the path and the query quoter" if mutable else None):
         return
     ctx.need(len(p) == 1, "quote_factory signature changed")
-    inner = [f for f in ctx.prog.funcs.values() if f.parent is fi]
-    rets = [n for n in walk_no_nested(fi.node) if isinstance(n, ast.Return) and n.value is not None]
-    ctx.need(len(inner) >= 1 and len(rets) == 1 and isinstance(rets[0].value, ast.Name) and any(f.name == rets[0].value.id for f in inner), "quote_factory does not return a nested function")
-    q = [f for f in inner if f.name == rets[0].value.id][0]
-    qp = params(q)
-    ctx.need(len(qp) == 1, "quote_factory's nested function signature changed")
-    ok, why = False, "no `sep.join(chr(b) if b in safe else '%%%02X' % b for b in s.encode('utf8'))` return found"
-    for r in [n for n in walk_no_nested(q.node) if isinstance(n, ast.Return) and n.value is not None]:
-        m = match("$sep.join($elt for $b in $it)", r.value) or match("$sep.join([$elt for $b in $it])", r.value)
-        if m is None:
-            continue
-        it = resolve_local(q.node, m["it"])
-        mi = match("$s.encode($codec)", it)
-        e = m["elt"]
-        if mi is None or not isinstance(e, ast.IfExp) or not isinstance(m["b"], ast.Name):
-            continue
-        bname = m["b"].id
-        test, keep, esc = e.test, e.body, e.orelse
-        if isinstance(test, ast.UnaryOp) and isinstance(test.op, ast.Not):
-            test, keep, esc = test.operand, esc, keep
-        if isinstance(test, ast.Compare) and len(test.ops) == 1 and isinstance(test.ops[0], ast.NotIn):
-            test = ast.Compare(left=test.left, ops=[ast.In()], comparators=test.comparators)
-            keep, esc = esc, keep
-        mt = match("%s in $set" % bname, test)
-        if mt is None:
-            continue
-        sset = resolve_local(fi.node, mt["set"])
-        ms = match("set(ord($c) for $c in %s)" % p[0], sset) or match("{ord($c) for $c in %s}" % p[0], sset) or match("frozenset(ord($c) for $c in %s)" % p[0], sset)
-        fmt = match("$f %% %s" % bname, esc)
-        conds = {
-            "joined with the empty string": try_eval(ctx.prog, fi.module, m["sep"]) == "",
-            "iterates the UTF-8 bytes of its argument": chain(mi["s"]) == qp[0] and str(try_eval(ctx.prog, fi.module, mi["codec"])).lower().replace("-", "") == "utf8",
-            "keeps a byte iff it is in the safe set": match("chr(%s)" % bname, keep) is not None,
-            "the safe set is {ord(c) for c in safe_characters}": ms is not None and not writes_to_name(fi.node, p[0]),
-            "other bytes become %XX": fmt is not None and try_eval(ctx.prog, fi.module, fmt["f"]) in ("%%%02X", "%%%02x"),
-        }
-        bad = [k for k, v in conds.items() if not v]
-        ok, why = not bad, ("; ".join("NOT: " + k for k in bad) if bad else "all five parts recognised")
-        break
-    ctx.ob("quote_factory(S) keeps exactly the bytes of S and percent-encodes every other UTF-8 byte", ok, fi, q.node, detail=why, construct="quote_factory.<locals>.%s" % q.name)
+    S = p[0]
+    ex = Exec(prog)
+    ev = Evaluator(prog)
+    outs = [o for o in ex.run(fi) if o.normal]
+    ctx.need(len(outs) >= 1, "quote_factory never returns")
+    what = "quote_factory(S) keeps exactly the bytes of S and percent-encodes every other UTF-8 byte"
+    safes = sorted({v[0] for v in qf.values() if isinstance(v[0], str)}) + ["", "aZ%/", "".join(chr(i) for i in range(0x21, 0x7F))]
+    samples = _utf8_cover()
+    for o in outs:
+        rv = o.end[1] if o.end is not None and o.end[0] == "return" else None
+        clo = getattr(rv, "_closure", None) if isinstance(rv, ast.Name) else None
+        if clo is None and isinstance(rv, ast.Lambda):
+            # a lambda: its body is already closed over the factory's parameter (the factory's locals were substituted)
+            la = rv.args
+            ctx.need(len(la.args) == 1 and not (la.posonlyargs or la.kwonlyargs or la.defaults or la.vararg or la.kwarg), "quote_factory returns a lambda of unexpected signature")
+            qnode, qparam, V, cenv_exprs, construct = src_of(rv), la.args[0].arg, rv.body, {}, "quote_factory.<lambda>"
+        else:
+            ctx.need(clo is not None, "quote_factory does not return a nested function: `%s`" % (txt(rv, 80) if rv is not None else None))
+            q = clo.fi
+            qp = params(q)
+            ctx.need(len(qp) == 1 and not q.node.args.kwonlyargs and not q.node.args.defaults, "quote_factory's nested function signature changed")
+            construct = "quote_factory.<locals>.%s" % q.name
+            qnode, qparam, cenv_exprs = q.node, qp[0], clo.env
+            inner = ex.run(q, binding={k: v for k, v in clo.env.items() if isinstance(v, Closure)})
+            inner_ok = [i for i in inner if i.normal]
+            shape = len(inner) == 1 and len(inner_ok) == 1 and not inner[0].exceptional and not inner[0].stores() and inner[0].end[0] == "return" and inner[0].end[1] is not None
+            if not shape:
+                ctx.ob(what, False, fi, qnode, construct=construct,
+                       detail="the quote function has %d outcome(s) (exception handlers, stores or several returns): its result depends on more than the argument and the safe set" % len(inner))
+                continue
+            V = inner[0].end[1]
+        bad = None
+        for safe in safes:
+            cenv = {}
+            try:
+                for k, v in cenv_exprs.items():
+                    if isinstance(v, ast.AST) and k != S:
+                        cenv[k] = ev.ev(v, fi.module, {S: safe})
+            except EvalRaised as ex_:
+                if any(ord(c) >= 128 for c in safe):
+                    continue
+                bad = "evaluating the closure for safe set %r raises %r" % (safe, ex_.exc)
+                break
+            except NormError as ex_:
+                raise AnalysisError("C16.c: quote_factory: a closure variable is outside the evaluator's vocabulary: %s" % ex_)
+            cenv[S] = safe
+            for s in samples:
+                env = dict(cenv)
+                env[qparam] = s
+                try:
+                    got = ev.ev(V, fi.module, env)
+                except EvalRaised as ex_:
+                    got = "<raises %r>" % (ex_.exc,)
+                except NormError as ex_:
+                    raise AnalysisError("C16.c: the quote function's result `%s` is outside the evaluator's vocabulary: %s" % (txt(V, 100), ex_))
+                want = _spec_quote(safe, s)
+                if got != want:
+                    k = next((i for i, (x, y) in enumerate(zip(str(got), want)) if x != y), min(len(str(got)), len(want)))
+                    bad = "for safe set %r the result differs from the specification at offset %d of a %d-byte input (got ...%r, expected ...%r)" % (
+                        safe[:20], k, len(s.encode("utf8")), str(got)[max(0, k - 3):k + 6], want[max(0, k - 3):k + 6])
+                    break
+            if bad:
+                break
+        ctx.ob(what, bad is None, fi, qnode, detail=bad or "evaluated on %d strings covering every UTF-8 byte value for %d safe sets" % (len(samples), len(safes)), construct=construct)
 
 
-def _split_site(ctx, fi, cfg, P, comp, st):
-    """Interpret the value of `self.opt.uri_<x> = value`: ('empty',) or
-    ('split', separator, dropped leading elements, decoded ok, strict ok)."""
-    v = st.value
-    if isinstance(v, (ast.List, ast.Tuple)) and not v.elts:
-        return ("empty",)
-    if isinstance(v, ast.Call) and chain(v.func) in ("list", "tuple") and len(v.args) == 1:
-        v = v.args[0]
-    if not (isinstance(v, (ast.ListComp, ast.GeneratorExp)) and len(v.generators) == 1 and not v.generators[0].ifs and isinstance(v.generators[0].target, ast.Name)):
-        return None
-    x = v.generators[0].target.id
-    it = resolve_at(fi, v.generators[0].iter, cfg.loc1(st))
-    drop = 0
-    if isinstance(it, ast.Subscript):
-        sl = it.slice
-        if not (isinstance(sl, ast.Slice) and sl.upper is None and sl.step is None):
-            return None
-        lo = 0 if sl.lower is None else try_eval(ctx.prog, fi.module, sl.lower)
-        if not isinstance(lo, int) or lo < 0:
-            return None
-        drop = lo
-        it = it.value
-    m = match("$s.split($sep)", it)
-    if m is None or chain(m["s"]) != "%s.%s" % (P, comp):
-        return None
-    sep = try_eval(ctx.prog, fi.module, m["sep"])
-    e = v.elt
-    dec = isinstance(e, ast.Call) and ext_name(fi.module, e) == "urllib.parse.unquote" and len(e.args) == 1 and isinstance(e.args[0], ast.Name) and e.args[0].id == x
-    strict = dec and any(k.arg == "errors" and try_eval(ctx.prog, fi.module, k.value) == "strict" for k in e.keywords)
-    return ("split", sep, drop, dec, strict)
+def _leaf_abstract(e, is_const, known_callee):
+    """Replace the maximal sub-expressions the evaluator has no value for -- name / attribute / subscript chains that
+    are neither constants, nor callees, nor comprehension variables, and calls of functions outside its vocabulary --
+    by placeholder locals.  -> (expression, {placeholder: original expr})"""
+    leaves = {}
+
+    def leaf(n):
+        k = dump(n)
+        for name, (kk, _) in leaves.items():
+            if kk == k:
+                return local_name(name)
+        name = "__leaf%d" % len(leaves)
+        leaves[name] = (k, n)
+        return local_name(name)
+
+    def root_of(n):
+        while isinstance(n, (ast.Attribute, ast.Subscript)):
+            n = n.value
+        return n
+
+    def targets(t):
+        return {x.id for x in ast.walk(t) if isinstance(x, ast.Name)}
+
+    def rec(n, bound):
+        if isinstance(n, (ast.Name, ast.Attribute, ast.Subscript)) and isinstance(root_of(n), ast.Name):
+            r = root_of(n)
+            if r.id in bound or is_const(n) or (isinstance(n, ast.Name) and known_callee(n)):
+                return n
+            return leaf(n)
+        if isinstance(n, ast.Call):
+            f = n.func
+            if isinstance(f, ast.Name) and f.id not in bound and not known_callee(f):
+                return leaf(n)
+            if isinstance(f, ast.Attribute):
+                f2 = ast.Attribute(value=rec(f.value, bound), attr=f.attr, ctx=ast.Load())
+            elif isinstance(f, ast.Name):
+                f2 = f
+            else:
+                f2 = rec(f, bound)
+            return ast.Call(func=f2, args=[rec(a, bound) for a in n.args], keywords=[ast.keyword(arg=k.arg, value=rec(k.value, bound)) for k in n.keywords])
+        if isinstance(n, (ast.ListComp, ast.SetComp, ast.GeneratorExp, ast.DictComp)):
+            b = set(bound)
+            gens = []
+            for g in n.generators:
+                it = rec(g.iter, b)
+                b |= targets(g.target)
+                gens.append(ast.comprehension(target=g.target, iter=it, ifs=[rec(c, b) for c in g.ifs], is_async=g.is_async))
+            if isinstance(n, ast.DictComp):
+                return ast.DictComp(key=rec(n.key, b), value=rec(n.value, b), generators=gens)
+            return type(n)(elt=rec(n.elt, b), generators=gens)
+        if isinstance(n, ast.Lambda):
+            a = n.args
+            b = set(bound) | {x.arg for x in a.posonlyargs + a.args + a.kwonlyargs}
+            return ast.Lambda(args=a, body=rec(n.body, b))
+        if isinstance(n, ast.AST) and not isinstance(n, (ast.expr_context, ast.operator, ast.unaryop, ast.boolop, ast.cmpop, ast.Constant)):
+            kw = {}
+            for f, v in ast.iter_fields(n):
+                if isinstance(v, list):
+                    kw[f] = [rec(x, bound) if isinstance(x, ast.AST) else x for x in v]
+                elif isinstance(v, ast.AST):
+                    kw[f] = rec(v, bound)
+                else:
+                    kw[f] = v
+            return type(n)(**kw)
+        return n
+
+    return rec(e, set()), {k: v[1] for k, v in leaves.items()}
+
+
+SEGMENT_LISTS = [[], ["a"], ["a", "b"], ["", "a"], ["a", ""], ["", ""], ["x", "y", "z", "", "u", "v", "w"]]
+
+
+def _composition(ctx, ev, gfi, e, qf):
+    """Evaluate the expression passed to urlunparse as path / query for segment lists of several lengths, with the quote
+    functions of message.py replaced by tagging functions.  -> (results per list, expression of the segment source) ."""
+    ae, leaves = _leaf_abstract(e, lambda n: ev.try_ev(n, gfi.module, {}, default=_NOVAL) is not _NOVAL, lambda f: f.id in qf or f.id in EVAL_BUILTINS)
+    ctx.need(len(leaves) >= 1, "get_request_uri: a composed component does not depend on any segment list: `%s`" % txt(e, 100))
+    env0 = {}
+    for name in qf:
+        env0[name] = (lambda s, _n=name: "\x02%s\x03%s\x04" % (_n, s))
+    res = []
+    for xs in SEGMENT_LISTS:
+        env = dict(env0)
+        for leaf in leaves:  # every source of segments stands for the same list
+            env[leaf] = tuple(xs)
+        try:
+            v = ev.ev(ae, gfi.module, env)
+        except EvalRaised as ex:
+            v = "<raises %r>" % (ex.exc,)
+        except NormError as ex:
+            raise AnalysisError("C16.c: get_request_uri: composed component `%s` is outside the evaluator's vocabulary: %s" % (txt(e, 100), ex))
+        res.append(v)
+    return res, list(leaves.values())
 
 
 @R.clause("C16.c", "separators are never in a safe set; split and join separators of set_request_uri / get_request_uri agree")
 def c(ctx):
     mod, qf = _quote_functions(ctx)
     ctx.floor("quote functions built by quote_factory in message.py", len(qf), 2)
-    _check_quote_factory(ctx)
-    # --- reader
-    sfi, scfg, uri, P = _setter(ctx)
-    reader = {}
-    for comp, opt, rfc_sep, want_drop in (("path", "uri_path", "/", 1), ("query", "uri_query", "&", 0)):
-        sts = [st for name, st in _opt_stores(sfi) if name == opt and isinstance(st, ast.Assign)]
-        ctx.floor("stores of opt.%s in set_request_uri" % opt, len(sts), 1)
-        seen_split = False
-        for st in sts:
-            r = _split_site(ctx, sfi, scfg, P, comp, st)
-            if r is None and any(chain(n_) == "%s.%s" % (P, comp) for n_ in ast.walk(st.value)):
-                # derived from the component, but not as split(sep)[k:] of the unmodified component
-                # (e.g. lstrip("/") first: leading empty segments collapse, distinct resources alias)
-                seen_split = True
-                ctx.ob("the %s component is decomposed as split(%r)%s of the unmodified component" % (comp, rfc_sep, "[1:]" if want_drop else ""), False, sfi, st)
-                continue
-            ctx.need(r is not None, "set_request_uri: value stored to opt.%s is neither an empty list nor a comprehension over %s.%s.split(..): `%s`" % (opt, P, comp, stmt_text(st, 90)))
-            nid = scfg.loc1(st)
-            if r[0] == "empty":
-                continue
-            seen_split = True
-            _, sep, drop, dec, strict = r
-            reader[comp] = sep
-            ctx.ob("the %s component is split on %r" % (comp, rfc_sep), sep == rfc_sep, sfi, st, detail="split separator %r" % (sep,))
-            ctx.ob("exactly the %d leading element(s) of the split %s are dropped" % (want_drop, comp), drop == want_drop, sfi, st, detail="%d dropped" % drop)
-            ctx.ob("every %s segment is percent-decoded with errors='strict'" % comp, dec and strict, sfi, st)
-            # the non-empty arm is taken exactly when the component is non-degenerate
-            guards = [(e, pol) for e, pol in guard_exprs(scfg, nid) if _classify(ctx, sfi, P, e) is None]
-            if comp == "path":
-                okg = False
-                for e, pol in guards:
-                    if isinstance(e, ast.Compare) and len(e.ops) == 1 and isinstance(e.ops[0], (ast.In, ast.NotIn)) and chain(e.left) == "%s.path" % P:
-                        vals = try_eval(ctx.prog, sfi.module, e.comparators[0])
-                        if isinstance(vals, (tuple, list, set, frozenset)) and set(vals) == {"", "/"} and pol == isinstance(e.ops[0], ast.NotIn):
-                            okg = True
-                ctx.ob("Uri-Path segments are produced exactly when the path is neither empty nor a single '/'", okg, sfi, st, detail="guards: %s" % [(stmt_text(e, 60), pol) for e, pol in guards])
-            else:
-                okg = any(chain(e) == "%s.query" % P and pol for e, pol in guards)
-                ctx.ob("Uri-Query segments are produced exactly when the query is non-empty", okg, sfi, st, detail="guards: %s" % [(stmt_text(e, 60), pol) for e, pol in guards])
-        ctx.need(seen_split, "set_request_uri never splits the %s component" % comp)
+    _check_quote_factory(ctx, qf)
+    # --- reader: the stored segment lists as functions of the component
+    M = _model(ctx)
+    sfi = M.fi
+    coap = [o for o in M.accepted() if "partial" not in o.flags and M.arm(o) == "coap"]
+    ctx.floor("accepted CoAP paths of set_request_uri", len(coap), 1)
+    WHAT = {
+        "path": {
+            "degenerate": "no Uri-Path option is produced exactly when the path is empty or a single '/'",
+            "plain": "the path component is split on '/' and exactly the one leading empty element is dropped (empty segments elsewhere are kept)",
+            "escaped": "every path segment is percent-decoded after splitting (reserved and incomplete escapes included)",
+            "invalid": "path segments are decoded with errors='strict' (non-UTF-8 escapes raise)",
+        },
+        "query": {
+            "degenerate": "no Uri-Query option is produced exactly when the query is empty",
+            "plain": "the query component is split on '&' (empty items are kept)",
+            "escaped": "every query item is percent-decoded after splitting (reserved and incomplete escapes included)",
+            "invalid": "query items are decoded with errors='strict' (non-UTF-8 escapes raise)",
+        },
+    }
+    for comp, opt, samples in (("path", "uri_path", PATH_SAMPLES), ("query", "uri_query", QUERY_SAMPLES)):
+        var = "__component"
+        sites = {}
+        for o in coap:
+            st = o.last_store("self.opt.%s" % opt)
+            if st is None:
+                continue  # reported by C16.b
+            i, val, node = st
+            ctx.need(val is not None, "set_request_uri deletes opt.%s" % opt)
+            ce = _component_closed(M, val, comp, var)
+            ctx.need(ce is not None, "set_request_uri: value stored to opt.%s reads other parts of the parsed URL: `%s`" % (opt, txt(val, 90)))
+            sites.setdefault(id(src_of(node)), [node, []])[1].append((o, ce, val))
+        ctx.floor("stores of opt.%s in set_request_uri" % opt, len(sites), 1)
+        results = {cat: [] for cat in samples}  # cat -> [(node, sample, got, want)] failures
+        covered = {cat: 0 for cat in samples}
+        first_node = next(iter(sites.values()))[0]
+        for node, items in sites.values():
+            for o, ce, val in items:
+                for cat, ss in samples.items():
+                    for s in ss:
+                        if not _applies(M, o, comp, var, s):
+                            continue
+                        covered[cat] += 1
+                        got = _run_value(M, ce, var, s)
+                        ctx.need(got[0] != "?", "set_request_uri: value stored to opt.%s is outside the evaluator's vocabulary (%s): `%s`" % (opt, got[1], txt(val, 90)))
+                        try:
+                            want = ("ok", _spec_segments(comp, s))
+                        except UnicodeDecodeError:
+                            want = ("raise", "UnicodeDecodeError")
+                        if got != want:
+                            results[cat].append((node, s, got, want))
+        for cat in samples:
+            ctx.need(covered[cat] > 0, "set_request_uri: no accepted path for a %s %s component" % (cat, comp))
+            bad = results[cat]
+            ctx.ob(WHAT[comp][cat], not bad, sfi, bad[0][0] if bad else first_node,
+                   detail=("%s = %r gives %r, expected %r" % (comp, bad[0][1], bad[0][2][1], bad[0][3][1])) if bad else "%d evaluation(s)" % covered[cat],
+                   construct="opt.%s from %s: %s" % (opt, comp, cat))
     # --- writer
     gfi = ctx.prog.func(GET)
-    gcfg = cfg_of(gfi)
-    slots = urlunparse_slots(gfi)
-    ctx.need(len(slots) >= 1, "get_request_uri: no urlunparse((scheme, netloc, path, params, query, fragment)) call found")
+    gex = Exec(ctx.prog)
+    gev = Evaluator(ctx.prog)
+    gouts = gex.run(gfi)
     nsites = 0
-    for call, sl in slots:
-        at = gcfg.loc1(call)
-        for comp, rfc_sep, others in (("path", "/", "?#%"), ("query", "&", "#%")):
-            e = resolve_at(gfi, sl[comp], at)
-            j = join_site(ctx.prog, gfi, e)
-            ctx.need(j is not None, "get_request_uri: the %s passed to urlunparse is not a recognised join of quoted segments: `%s`" % (comp, stmt_text(e, 90)))
-            sep, leading, qname, xs = j
-            ctx.need(qname in qf, "get_request_uri: %s segments are quoted by `%s`, which is not a quote_factory product of message.py" % (comp, qname))
+    seen = set()
+    for o in gouts:
+        if o.end is None or o.end[0] != "return" or not isinstance(o.end[1], ast.Call):
+            continue
+        call = o.end[1]
+        slots = _unparse_slots(ctx, gfi, call)
+        if slots is None:
+            continue
+        for comp, slot, rfc_sep, others in (("path", slots["path"], "/", "?#%"), ("query", slots["query"], "&", "#%")):
+            k = (comp, dump(slot))
+            if k in seen:
+                continue
+            seen.add(k)
+            node = src_of(o.end[2]) if o.end[2] is not None else gfi.node
+            res, src = _composition(ctx, gev, gfi, slot, qf)
+            # which quote function tags the single segment "a"?
+            one = res[1]
+            qname = None
+            if isinstance(one, str) and one.count("\x02") == 1 and "\x03a\x04" in one:
+                qname = one[one.index("\x02") + 1:one.index("\x03")]
+            ctx.need(qname in qf, "get_request_uri: %s segments are not quoted by a quote_factory product of message.py: `%s`" % (comp, txt(slot, 90)))
+            tag = lambda s: "\x02%s\x03%s\x04" % (qname, s)
+            bad = None
+            for xs, got in zip(SEGMENT_LISTS, res):
+                if comp == "path":
+                    wants = ["".join("/" + tag(x) for x in xs)] + (["/"] if not xs else [])  # an empty path may be written '' or '/'
+                else:
+                    wants = ["&".join(tag(x) for x in xs)]
+                if got not in wants:
+                    bad = "segments %r compose to %r, expected %r" % (xs, _untag(got), _untag(wants[-1]))
+                    break
+            nsites += 1
             safe = qf[qname][0]
             ctx.need(isinstance(safe, str), "safe set of %s does not evaluate to a string" % qname)
-            nsites += 1
             where = "safe set of %s (quoting %s segments)" % (qname, comp)
-            ctx.ob("%s segments are joined with %r" % (comp, rfc_sep), sep == rfc_sep and leading == (comp == "path"), gfi, e, detail="separator %r, leading=%s" % (sep, leading))
-            ctx.ob("writer and reader use the same %s separator" % comp, sep == reader.get(comp), gfi, e, detail="join %r vs split %r" % (sep, reader.get(comp)))
-            ctx.ob("the %s separator %r is not in the %s" % (comp, sep, where), isinstance(sep, str) and not (set(sep) & set(safe)), gfi, qf[qname][1], detail="safe = %r" % safe,
-                   construct="%s: %r safe" % (qname, sep))
+            ctx.ob("%s segments are each quoted and joined with %r%s (the separator the reader splits on)" % (comp, rfc_sep, ", every segment preceded by it" if comp == "path" else ""),
+                   bad is None, gfi, node, detail="`%s`%s" % (txt(slot, 100), (": " + bad) if bad else ""), construct="get_request_uri: %s composition" % comp)
+            ctx.ob("the %s separator %r is not in the %s" % (comp, rfc_sep, where), rfc_sep not in safe, gfi, qf[qname][1], detail="safe = %r" % safe,
+                   construct="%s: %r safe" % (qname, rfc_sep))
             for ch in others:
                 ctx.ob("%r is not in the %s" % (ch, where), ch not in safe, gfi, qf[qname][1], detail="safe = %r" % safe, construct="%s: %r safe" % (qname, ch))
             ctx.ob("the %s is ASCII only" % where, all(ord(ch) < 128 for ch in safe), gfi, qf[qname][1], construct="%s: non-ASCII safe" % qname)
     ctx.floor("composition sites in get_request_uri", nsites, 2)
-    ctx.extra["C16.c"] = {"safe_sets": {k: v[0] for k, v in qf.items()}, "reader_separators": reader}
+    ctx.extra["C16.c"] = {"safe_sets": {k: v[0] for k, v in qf.items()}, "helpers_executed_in_place": sorted(set(M.ex.inlined) | set(gex.inlined))}
+
+
+def _unparse_slots(ctx, gfi, call):
+    """{'path': expr, 'query': expr} when `call` composes a URI from its components: urlunparse / urlunsplit of a
+    literal sequence, or ParseResult / SplitResult(...).geturl(); None for anything else."""
+    prog = ctx.prog
+    nm = qual_name(prog, gfi.module, call)
+    if nm in ("urllib.parse.urlunparse", "urllib.parse.urlunsplit") and len(call.args) == 1 and not call.keywords:
+        t = call.args[0]
+        if isinstance(t, ast.Call) and qual_name(prog, gfi.module, t) in ("urllib.parse.ParseResult", "urllib.parse.SplitResult"):
+            return _result_slots(ctx, gfi, t)
+        want = 6 if nm.endswith("urlunparse") else 5
+        ctx.need(isinstance(t, (ast.Tuple, ast.List)) and len(t.elts) == want and not any(isinstance(x, ast.Starred) for x in t.elts),
+                 "get_request_uri: %s is not called with a literal sequence of %d components" % (nm.split(".")[-1], want))
+        return {"path": t.elts[2], "query": t.elts[4 if want == 6 else 3]}
+    if isinstance(call.func, ast.Attribute) and call.func.attr == "geturl" and not call.args and not call.keywords and isinstance(call.func.value, ast.Call):
+        return _result_slots(ctx, gfi, call.func.value)
+    return None
+
+
+def _result_slots(ctx, gfi, t):
+    nm = qual_name(ctx.prog, gfi.module, t)
+    if nm not in ("urllib.parse.ParseResult", "urllib.parse.SplitResult"):
+        return None
+    fields = ["scheme", "netloc", "path", "params", "query", "fragment"] if nm.endswith("ParseResult") else ["scheme", "netloc", "path", "query", "fragment"]
+    ctx.need(not any(isinstance(x, ast.Starred) for x in t.args) and not any(k.arg is None for k in t.keywords), "get_request_uri: %s(..) with star arguments" % nm.split(".")[-1])
+    vals = dict(zip(fields, t.args))
+    for k in t.keywords:
+        vals[k.arg] = k.value
+    ctx.need("path" in vals and "query" in vals, "get_request_uri: %s(..) without path and query" % nm.split(".")[-1])
+    return {"path": vals["path"], "query": vals["query"]}
+
+
+def _untag(s):
+    return s.replace("\x02", "<").replace("\x03", ":").replace("\x04", ">") if isinstance(s, str) else s
 
 
 # ---------------------------------------------------------------------------
 # C16.d
 
-
-def _ascii_lower_table(ctx, fi, e):
-    """Does `e` (argument of .translate) evaluate to the map A-Z -> a-z?"""
-    if isinstance(e, ast.Name):
-        r = const_in_module(ctx.prog, fi.module, e.id)
-        if r is None:
-            return False
-        mod, e = r
-    else:
-        mod = fi.module
-    m = match("str.maketrans($a, $b)", e)
-    if m is None:
-        return False
-    a, b = try_eval(ctx.prog, mod, m["a"]), try_eval(ctx.prog, mod, m["b"])
-    return isinstance(a, str) and isinstance(b, str) and len(a) == len(b) and dict(zip(a, b)) == dict(zip(_string.ascii_uppercase, _string.ascii_lowercase))
+HOST_SAMPLES = {
+    "plain": ["example.com", "a", "a.b-c.d", "xn--nxasmq6b", "1.2.3.4.5", "a_b", "a+b"],
+    "case": ["%45xample.com", "ex%41mple.COM", "EXAMPLE.com", "Example.COM", "%5A%7A", "A%2Eb"],
+    "nonascii": ["Ä.example", "%C3%84.example", "İx", "ǅ", "ẞ", "%E2%84%AA"],  # str.lower() would change these
+    "escaped": ["a%2Eb", "%25", "%zz", "%4", "a%20b", "%C3%A9"],
+    "invalid": ["%FF", "a%C3", "%C3%28.b"],
+}
+_ASCII_LOWER = {ord(a): ord(b) for a, b in zip(_string.ascii_uppercase, _string.ascii_lowercase)}
 
 
-def _ip_literal_predicate(ctx, fi, P, E):
-    """Decompose the IP-literal predicate; returns dict of recognised parts and a list of unrecognised disjuncts/conjuncts."""
-    N = Normalizer()
-    host = "%s.hostname" % P
-    parts = {"bracket": False, "dots": False, "digits": False, "octets": False}
-    extra = []
-    for d in flatten(E, ast.Or):
-        mb = match("%s.netloc.startswith($c)" % P, d)
-        if mb is not None and try_eval(ctx.prog, fi.module, mb["c"]) == "[":
-            parts["bracket"] = True
-            continue
-        conj = flatten(d, ast.And)
-        kinds = set()
-        for cj in conj:
-            try:
-                nf = N.cmp(cj)
-            except NormError:
-                nf = None
-            if nf == N.cmp(ast.parse("%s.count('.') == 3" % host, mode="eval").body):
-                kinds.add("dots")
-                continue
-            m = match("all($c in $D for $c in %s)" % host, cj)
-            if m is not None:
-                dv = try_eval(ctx.prog, fi.module, m["D"])
-                if isinstance(dv, (str, tuple, list, set, frozenset)) and set(dv) == DIGITS_DOT:
-                    kinds.add("digits")
-                    continue
-            m = match("all($e for $x in %s.split($sep))" % host, cj)
-            if m is not None and isinstance(m["x"], ast.Name) and try_eval(ctx.prog, fi.module, m["sep"]) == ".":
-                x = m["x"].id
-                bound = False
-                unknown = False
-                for sub in flatten(m["e"], ast.And):
-                    try:
-                        snf = N.cmp(sub)
-                    except NormError:
-                        snf = None
-                    if snf == N.cmp(ast.parse("int(%s) <= 255" % x, mode="eval").body):
-                        bound = True
-                    elif snf == N.cmp(ast.parse("%s != ''" % x, mode="eval").body) or (isinstance(sub, ast.Name) and sub.id == x):
-                        pass
-                    elif snf is not None and snf[0] == "lt" and N.cmp(ast.parse("0 <= int(%s)" % x, mode="eval").body) == snf:
-                        pass
-                    elif snf is not None and any(snf == N.cmp(ast.parse("len(%s) <= %d" % (x, k), mode="eval").body) for k in range(3, 4301)):
-                        pass  # a length bound of at least 3 digits removes no label <= 255 without leading zeros
-                    else:
-                        unknown = True
-                if bound and not unknown:
-                    kinds.add("octets")
-                    continue
-            extra.append(cj)
-        if kinds == {"dots", "digits", "octets"}:
-            for k in kinds:
-                parts[k] = True
-        elif kinds:
-            for k in kinds:
-                parts[k] = True
-            for k in {"dots", "digits", "octets"} - kinds:
-                extra.append(ast.parse("'<missing conjunct: %s>'" % k, mode="eval").body)
-        elif not conj:
-            extra.append(d)
-    return parts, extra
+def _spec_host(s):
+    return _up.unquote(s, errors="strict").translate(_ASCII_LOWER)
 
 
 @R.clause("C16.d", "Uri-Host is the strictly percent-decoded host through the ASCII lower-casing table, omitted iff the IP-literal predicate holds; the remote keeps (scheme, netloc)")
 def d(ctx):
-    fi, cfg, uri, P = _setter(ctx)
-    pr = params(fi) + [a.arg for a in fi.node.args.kwonlyargs]
-    stores = _opt_stores(fi)
-    hs = [st for name, st in stores if name == "uri_host"]
-    ctx.floor("stores of opt.uri_host in set_request_uri", len(hs), 1)
-    for st in hs:
-        nid = cfg.loc1(st)
-        v = resolve_at(fi, st.value, nid) if isinstance(st, ast.Assign) else None
-        ctx.need(v is not None, "uri_host is not stored by a plain assignment")
-        mt = match("$inner.translate($table)", v)
-        ctx.ob("the stored Uri-Host went through the ASCII lower-casing table (A-Z -> a-z, nothing else)", mt is not None and _ascii_lower_table(ctx, fi, mt["table"]), fi, st,
-               detail="value: %s" % stmt_text(v, 100))
-        inner = resolve_at(fi, mt["inner"], nid) if mt is not None else v
-        calls = [n for n in ast.walk(inner) if isinstance(n, ast.Call) and ext_name(fi.module, n) == "urllib.parse.unquote"]
-        dec = isinstance(inner, ast.Call) and inner in calls and len(inner.args) == 1 and chain(inner.args[0]) == "%s.hostname" % P
-        strict = dec and any(k.arg == "errors" and try_eval(ctx.prog, fi.module, k.value) == "strict" for k in inner.keywords)
-        ctx.ob("the stored Uri-Host is the percent-decoded host component, decoded with errors='strict', lower-cased after decoding", dec and strict, fi, st, detail="decoded value: %s" % stmt_text(inner, 100))
-        # guards: rejection guards, the documented opt-out parameter, and `not <IP-literal predicate>`
-        facts, other = _facts(ctx, fi, cfg, P, nid)
-        pred = None
-        unknown = []
-        optout = [p for p in pr if p != uri]
-        for e, pol, pid in other:
-            if isinstance(e, ast.Name) and e.id in optout and is_unwritten_param(fi, e.id) and pol:
-                continue
-            if isinstance(e, ast.Name) and pred is None:
-                E = unique_def_expr(fi, e.id, cfg.pred[pid][0][0])
-                if E is not None and (not pol or any(_ip_literal_predicate(ctx, fi, P, E)[0].values())):
-                    pred = (e, E, pol)
-                    continue
-            sib = sibling(cfg, pid)
-            if sib is not None and side_rejects(cfg, sib):
-                continue
-            unknown.append((e, pol))
-        ctx.need(pred is not None, "set_request_uri: the Uri-Host store is not under `not <local holding the IP-literal predicate>`")
-        ctx.ob("Uri-Host is omitted under no condition other than the IP-literal predicate and the set_uri_host opt-out", not unknown, fi, st,
-               detail="further conditions: %s" % [(stmt_text(e, 60), pol) for e, pol in unknown])
-        ctx.ob("Uri-Host is stored when the IP-literal predicate is false (and omitted when it is true)", pred[2] is False, fi, st, detail="stored when `%s` is %s" % (pred[0].id, pred[2]))
-        parts, extra = _ip_literal_predicate(ctx, fi, P, pred[1])
-        pnode = pred[1]
-        ctx.ob("IP-literal predicate: a bracketed netloc is a literal", parts["bracket"], fi, pnode, construct="is_ip_literal: bracketed")
-        ctx.ob("IP-literal predicate: an IPv4 literal has exactly three dots", parts["dots"], fi, pnode, construct="is_ip_literal: three dots")
-        ctx.ob("IP-literal predicate: an IPv4 literal consists of decimal digits and dots only", parts["digits"], fi, pnode, construct="is_ip_literal: digits and dots")
-        ctx.ob("IP-literal predicate: every label of an IPv4 literal is at most 255", parts["octets"], fi, pnode, construct="is_ip_literal: labels <= 255")
-        ctx.ob("IP-literal predicate: nothing else counts as a literal", not extra, fi, pnode, construct="is_ip_literal: no further case",
-               detail="; ".join(stmt_text(x, 70) for x in extra))
+    M = _model(ctx)
+    fi, sp = M.fi, M.sp
+    coap = [o for o in M.accepted() if "partial" not in o.flags and M.arm(o) == "coap"]
+    ctx.floor("accepted CoAP paths of set_request_uri", len(coap), 2)
+    optout = [p for p in M.optout if is_unwritten_param(fi, p)]
+    ctx.need(len(optout) >= 1, "set_request_uri: no opt-out parameter (set_uri_host) found")
+    OPT = mk_and([local_name(p) for p in optout]) if len(optout) == 1 else None
+    ctx.need(OPT is not None, "set_request_uri has several optional parameters: the rule knows one (set_uri_host)")
+    OPT = sp.formula(OPT)
+    STORE = ("and", (OPT, ("not", M.LIT)))
+    WHAT = {
+        "plain": "the stored Uri-Host is the host component",
+        "case": "the stored Uri-Host went through the ASCII lower-casing table after percent-decoding (A-Z -> a-z)",
+        "nonascii": "only A-Z are lower-cased (no Unicode case mapping of the host)",
+        "escaped": "the stored Uri-Host is the percent-decoded host component",
+        "invalid": "the host is percent-decoded with errors='strict' (non-UTF-8 escapes raise)",
+    }
+    sites = {}
+    n_with = n_without = 0
+    var = "__host"
+    for o in coap:
+        node = o.end[2] if o.end is not None and o.end[2] is not None else fi.node
+        st = o.last_store("self.opt.uri_host")
+        c = M.conj(o)
+        if st is None:
+            n_without += 1
+            cex = sp.counterexample(c, ("not", STORE))
+            ctx.ob("Uri-Host is omitted under no condition other than the IP-literal predicate and the set_uri_host opt-out", cex is None, fi, node,
+                   detail=None if cex is None else "omitted with: %s" % sp.show(cex), construct="Uri-Host omitted")
+            continue
+        n_with += 1
+        i, val, snode = st
+        cex = sp.counterexample(c, STORE)
+        ctx.ob("Uri-Host is stored only when not opted out and the IP-literal predicate (bracketed netloc, or three dots and digits-and-dots only and every label <= 255) is false",
+               cex is None, fi, snode, detail=None if cex is None else "stored with: %s" % sp.show(cex), construct="Uri-Host stored")
+        ctx.need(val is not None, "set_request_uri deletes opt.uri_host")
+        ce = _component_closed(M, val, "hostname", var)
+        ctx.need(ce is not None, "set_request_uri: the value stored to opt.uri_host reads other parts of the parsed URL: `%s`" % txt(val, 90))
+        sites.setdefault(id(src_of(snode)), [snode, []])[1].append((ce, val))
+    ctx.floor("accepted CoAP paths storing Uri-Host", n_with, 1)
+    ctx.floor("accepted CoAP paths omitting Uri-Host", n_without, 1)
+    ctx.floor("stores of opt.uri_host in set_request_uri", len(sites), 1)
+    for snode, items in sites.values():
+        for cat, ss in HOST_SAMPLES.items():
+            bad = None
+            for ce, val in items:
+                for s in ss:
+                    got = _run_host(M, ce, var, s)
+                    ctx.need(got[0] != "?", "set_request_uri: the value stored to opt.uri_host is outside the evaluator's vocabulary (%s): `%s`" % (got[1], txt(val, 90)))
+                    try:
+                        want = ("ok", _spec_host(s))
+                    except UnicodeDecodeError:
+                        want = ("raise", "UnicodeDecodeError")
+                    if got != want and bad is None:
+                        bad = "host %r gives %r, expected %r" % (s, got[1], want[1])
+            ctx.ob(WHAT[cat], bad is None, fi, snode, detail=bad, construct="opt.uri_host value: %s" % cat)
     # remote keeps scheme and netloc (the port stays with the destination)
-    rs = [st for name, st in stores if name == "@remote"]
-    ctx.floor("stores of self.remote in set_request_uri", len(rs), 1)
-    for st in rs:
-        v = st.value if isinstance(st, ast.Assign) else None
-        ok = isinstance(v, ast.Call) and ctx.prog.resolve_in_module(fi.module, chain(v.func) or "?") == "aiocoap.message.UndecidedRemote" and len(v.args) == 2 and not v.keywords \
-            and chain(v.args[0]) == "%s.scheme" % P and chain(v.args[1]) == "%s.netloc" % P
-        ctx.ob("the remote is UndecidedRemote(scheme, netloc): the port stays with the destination", ok, fi, st)
-    ctx.ob("no Uri-Port option is stored by set_request_uri (the port stays in the remote)", not any(name == "uri_port" for name, _ in stores), fi,
-           next((st for name, st in stores if name == "uri_port"), fi.node), construct="self.opt.uri_port")
+    rsites = {}
+    for o in coap:
+        st = o.last_store("self.remote")
+        if st is not None:
+            rsites.setdefault(id(src_of(st[2])), []).append(st)
+    ctx.floor("stores of self.remote in set_request_uri", len(rsites), 1)
+    nfi = ctx.prog.func("message.UndecidedRemote.__new__")
+    np_ = params(nfi)
+    for sts in rsites.values():
+        ok = True
+        for i, v, node in sts:
+            good = isinstance(v, ast.Call) and qual_name(ctx.prog, fi.module, v) == "aiocoap.message.UndecidedRemote" and not any(isinstance(x, ast.Starred) for x in v.args)
+            if good:
+                args = dict(zip(np_, v.args))
+                for k in v.keywords:
+                    if k.arg is None or k.arg in args:
+                        good = False
+                    else:
+                        args[k.arg] = k.value
+                good = good and len(np_) == 2 and set(args) == set(np_) and M.comp(args[np_[0]]) == "scheme" and M.comp(args[np_[1]]) == "netloc"
+            ok = ok and good
+        ctx.ob("the remote is UndecidedRemote(scheme, netloc): the port stays with the destination", ok, fi, sts[0][2], construct="self.remote = UndecidedRemote(scheme, netloc)",
+               detail="value: %s" % txt(sts[0][1], 100) if sts[0][1] is not None else None)
+    port_stores = [(t, n) for o in M.outs for _, t, _, n in o.stores() if t.startswith("self.opt.uri_port")]
+    ctx.ob("no Uri-Port option is stored by set_request_uri (the port stays in the remote)", not port_stores, fi, port_stores[0][1] if port_stores else fi.node, construct="self.opt.uri_port")
+
+
+def _run_host(M, ce, var, value):
+    try:
+        v = M.ev.ev(ce, M.fi.module, {var: value})
+    except EvalRaised as ex:
+        return ("raise", type(ex.exc).__name__)
+    except NormError as ex:
+        return ("?", str(ex))
+    if isinstance(v, str):
+        return ("ok", v)
+    return ("?", "value of type %s" % type(v).__name__)
 
 
 # ---------------------------------------------------------------------------
 # C16.e
 
+JOIN_HOSTS = ["h", "[h", "h]", "[h]", "a:b", "[a:b", "a:b]", "[a:b]", "::1", "[::1]", "[fe80::1%eth0]", "fe80::1%eth0", "1.2.3.4", "example.com", "[v1.x]", ":", "[:]", "]:[", "a]:[b",
+              "", "[", "]", "[]", "a-rather-long-host-name.example.com", "2001:db8:85a3:8d3:1319:8a2e:370:7348", "[2001:db8:85a3:8d3:1319:8a2e:370:7348]", "a:b:c", "[a]:b"]
+JOIN_PORTS = [None, 0, 1, 5683, 65535]
 
-def _brackets(ctx, fi, e, name):
-    """Is e == "[" + name + "]" in one of the usual spellings?"""
-    m = match("$f % $x", e)
-    if m is not None and try_eval(ctx.prog, fi.module, m["f"]) == "[%s]":
-        x = m["x"]
-        if isinstance(x, ast.Tuple) and len(x.elts) == 1:
-            x = x.elts[0]
-        return isinstance(x, ast.Name) and x.id == name
-    ops = plus_operands(e)
-    if len(ops) == 3:
-        return try_eval(ctx.prog, fi.module, ops[0]) == "[" and isinstance(ops[1], ast.Name) and ops[1].id == name and try_eval(ctx.prog, fi.module, ops[2]) == "]"
-    if isinstance(e, ast.JoinedStr) and len(e.values) == 3:
-        a, b, c_ = e.values
-        return isinstance(a, ast.Constant) and a.value == "[" and isinstance(c_, ast.Constant) and c_.value == "]" and isinstance(b, ast.FormattedValue) \
-            and isinstance(b.value, ast.Name) and b.value.id == name and b.conversion == -1 and b.format_spec is None
-    return False
+
+def _spec_hostportjoin(host, port):
+    if ":" in host and not (host.startswith("[") and host.endswith("]")):
+        host = "[" + host + "]"
+    return host if port is None else "%s:%d" % (host, port)
 
 
 @R.clause("C16.e", "hostportjoin brackets exactly unbracketed hosts containing ':'; hostportsplit delegates to SplitResult; UndecidedRemote normalises bracketed literals via ipaddress and hostportjoin")
 def e(ctx):
-    N = Normalizer()
-    # --- hostportjoin
-    fi = ctx.prog.func("util.hostportjoin")
-    cfg = cfg_of(fi)
+    prog = ctx.prog
+    ex = Exec(prog)
+    ev = Evaluator(prog)
+    # --- hostportjoin: its summarised outcomes, evaluated on hosts covering all eight combinations of
+    # (contains ':', starts with '[', ends with ']') and on absent / boundary ports
+    fi = prog.func("util.hostportjoin")
     p = params(fi)
     ctx.need(len(p) == 2, "hostportjoin signature changed")
     host, port = p
-    ws = [w for w in writes_to_name(fi.node, host)]
-    ctx.floor("re-bindings of the host in hostportjoin", len(ws), 1)
-    ref = N.dnf(ast.parse("':' in %s and not (%s.startswith('[') and %s.endswith(']'))" % (host, host, host), mode="eval").body)
-    for w in ws:
-        v = def_value(w, host)
-        ctx.ob("hostportjoin re-binds the host only to its bracketed form", v[0] == "expr" and _brackets(ctx, fi, v[1], host), fi, w)
-        nid = cfg.loc1(w)
-        terms, tests = enclosing_condition(cfg, w)
-        ctx.need(all(any(contains(t, e_) for t in tests) for e_, _, _ in cfg.guards(nid)), "hostportjoin: the bracketing is additionally controlled by an earlier exit")
-        cond = terms[0] if len(terms) == 1 else (ast.BoolOp(op=ast.And(), values=terms) if terms else ast.Constant(value=True))
-        try:
-            got = N.dnf(cond)
-        except NormError:
-            got = None
-        ctx.ob("the host is bracketed iff it contains ':' and is not already enclosed in brackets", got == ref and nid not in cfg.reach({nid}), fi, w,
-               detail="condition: %s" % stmt_text(cond, 120))
-    rets = [n for n in walk_no_nested(fi.node) if isinstance(n, ast.Return)]
-    ctx.floor("returns of hostportjoin", len(rets), 1)
-    seen = set()
-    for r in rets:
-        ctx.need(r.value is not None, "hostportjoin returns None")
-        rn = cfg.loc1(r)
-        if isinstance(r.value, ast.Name):
-            defs = [(w, def_value(w, r.value.id)) for w in reaching_defs(fi, r.value.id, rn)]
-        else:
-            defs = [(r, ("expr", r.value))]
-        for w, v in defs:
-            ctx.need(v[0] == "expr", "hostportjoin: returned value is not bound by a plain assignment")
-            val = v[1]
-            if isinstance(val, ast.IfExp):
-                arms = [(val.body, [(val.test, True)]), (val.orelse, [(val.test, False)])]
+    outs = ex.run(fi)
+    ctx.floor("outcomes of hostportjoin", len(outs), 2)
+    ctx.need(not any(o.exceptional or o.stores() for o in outs), "hostportjoin has exception handlers or stores: outside the rule's vocabulary")
+    fails = {"bracket": None, "bare": None, "joined": None}
+    nret = 0
+    for h in JOIN_HOSTS:
+        for pt in JOIN_PORTS:
+            env = {host: h, port: pt}
+            hit = []
+            for o in outs:
+                try:
+                    if all(bool(ev.ev(ce, fi.module, env)) == pol for ce, pol in o.conds()):
+                        hit.append(o)
+                except EvalRaised as ex_:
+                    hit.append(o)
+                except NormError as ex_:
+                    raise AnalysisError("C16.e: a condition of hostportjoin is outside the evaluator's vocabulary: %s" % ex_)
+            ctx.need(len(hit) == 1, "hostportjoin: %d outcomes apply to (%r, %r)" % (len(hit), h, pt))
+            o = hit[0]
+            want = _spec_hostportjoin(h, pt)
+            if o.end is None or o.end[0] != "return" or o.end[1] is None:
+                got = "<%s>" % (o.end[0] if o.end else "falls off the end")
             else:
-                arms = [(val, [])]
-            for av, extra_g in arms:
-                wn = cfg.loc1(w)
-                facts = set()
-                for e_, pol in guard_exprs(cfg, wn) + extra_g:
-                    try:
-                        c_ = N.cmp(e_)
-                    except NormError:
-                        continue
-                    facts.add(c_ if pol else N.negate(c_))
-                none_t = N.cmp(ast.parse("%s is None" % port, mode="eval").body)
-                if isinstance(av, ast.Name) and av.id == host:
-                    seen.add("bare")
-                    ctx.ob("the bare host is returned only when no port is given", none_t in facts, fi, w if w is not r else r, detail="guards: %s" % sorted(map(repr, facts)))
-                else:
-                    m = match("$f % ($h, $p)", av)
-                    okf = m is not None and try_eval(ctx.prog, fi.module, m["f"]) in ("%s:%d", "%s:%s") and chain(m["h"]) == host and chain(m["p"]) == port
-                    if not okf and isinstance(av, ast.JoinedStr):
-                        vals = av.values
-                        okf = len(vals) == 3 and isinstance(vals[1], ast.Constant) and vals[1].value == ":" and all(isinstance(x, ast.FormattedValue) for x in (vals[0], vals[2])) \
-                            and chain(vals[0].value) == host and chain(vals[2].value) == port
-                    seen.add("joined")
-                    ctx.ob("with a port the result is <host>:<port>", okf and N.negate(none_t) in facts, fi, w if w is not r else r, detail="value: %s; guards: %s" % (stmt_text(av, 60), sorted(map(repr, facts))))
-    ctx.ob("hostportjoin has both the port-less and the host:port result", seen == {"bare", "joined"}, fi, fi.node, construct="hostportjoin results", detail=sorted(seen))
-    ctx.ob("the port parameter of hostportjoin is not re-bound", not writes_to_name(fi.node, port), fi, fi.node, construct="hostportjoin port")
+                nret += 1
+                try:
+                    got = ev.ev(o.end[1], fi.module, env)
+                except EvalRaised as ex_:
+                    got = "<raises %r>" % (ex_.exc,)
+                except NormError as ex_:
+                    raise AnalysisError("C16.e: a result of hostportjoin is outside the evaluator's vocabulary: %s" % ex_)
+            if got != want:
+                node = o.end[2] if o.end is not None and o.end[2] is not None else fi.node
+                kind = "bracket" if ":" in h else ("bare" if pt is None else "joined")
+                if fails[kind] is None:
+                    fails[kind] = (node, "hostportjoin(%r, %r) gives %r, expected %r" % (h, pt, got, want))
+    ctx.floor("evaluated results of hostportjoin", nret, 20)
+    ctx.ob("the host is bracketed iff it contains ':' and is not already enclosed in brackets", fails["bracket"] is None, fi, fails["bracket"][0] if fails["bracket"] else fi.node,
+           detail=fails["bracket"][1] if fails["bracket"] else None, construct="hostportjoin: bracketing")
+    ctx.ob("the bare host is returned exactly when no port is given", fails["bare"] is None, fi, fails["bare"][0] if fails["bare"] else fi.node,
+           detail=fails["bare"][1] if fails["bare"] else None, construct="hostportjoin: port-less result")
+    ctx.ob("with a port the result is <host>:<port>", fails["joined"] is None, fi, fails["joined"][0] if fails["joined"] else fi.node,
+           detail=fails["joined"][1] if fails["joined"] else None, construct="hostportjoin: host:port result")
 
     # --- hostportsplit
-    fi = ctx.prog.func("util.hostportsplit")
-    cfg = cfg_of(fi)
+    fi = prog.func("util.hostportsplit")
     p = params(fi)
     ctx.need(len(p) == 1, "hostportsplit signature changed")
-    rets = [n for n in walk_no_nested(fi.node) if isinstance(n, ast.Return)]
-    ctx.floor("returns of hostportsplit", len(rets), 1)
-    for r in rets:
-        t = r.value
-        ok = isinstance(t, ast.Tuple) and len(t.elts) == 2 and all(isinstance(x, ast.Attribute) and isinstance(x.value, ast.Name) for x in t.elts) \
-            and t.elts[0].attr == "hostname" and t.elts[1].attr == "port" and t.elts[0].value.id == t.elts[1].value.id
-        src = unique_def_expr(fi, t.elts[0].value.id, cfg.loc1(r)) if ok else None
-        ok2 = False
-        if src is not None and isinstance(src, ast.Call) and ext_name(fi.module, src) in ("urllib.parse.SplitResult", "urllib.parse.ParseResult"):
-            netloc = src.args[1] if len(src.args) > 1 else next((k.value for k in src.keywords if k.arg == "netloc"), None)
-            ok2 = isinstance(netloc, ast.Name) and netloc.id == p[0] and not writes_to_name(fi.node, p[0])
-        ctx.ob("hostportsplit returns (hostname, port) of a SplitResult whose netloc is its argument", ok and ok2, fi, r)
+    outs = [o for o in ex.run(fi) if o.normal]
+    ctx.floor("normal outcomes of hostportsplit", len(outs), 1)
+    for o in outs:
+        node = o.end[2] if o.end is not None and o.end[2] is not None else fi.node
+        t = o.end[1] if o.end is not None and o.end[0] == "return" else None
+        ok = isinstance(t, (ast.Tuple, ast.List)) and len(t.elts) == 2 and all(isinstance(x, ast.Attribute) for x in t.elts) \
+            and t.elts[0].attr == "hostname" and t.elts[1].attr == "port" and dump(t.elts[0].value) == dump(t.elts[1].value) and "partial" not in o.flags
+        if ok:
+            src = t.elts[0].value
+            ok = isinstance(src, ast.Call) and qual_name(prog, fi.module, src) in ("urllib.parse.SplitResult", "urllib.parse.ParseResult") and not any(isinstance(x, ast.Starred) for x in src.args)
+            if ok:
+                netloc = src.args[1] if len(src.args) > 1 else next((k.value for k in src.keywords if k.arg == "netloc"), None)
+                ok = isinstance(netloc, ast.Name) and netloc.id == p[0] and getattr(netloc, "_local", False)
+        ctx.ob("hostportsplit returns (hostname, port) of a SplitResult whose netloc is its argument", bool(ok), fi, node,
+               detail="returns %s" % (txt(t, 100) if t is not None else None), construct="hostportsplit result")
 
     # --- UndecidedRemote.__new__
-    fi = ctx.prog.func("message.UndecidedRemote.__new__")
-    cfg = cfg_of(fi)
+    fi = prog.func("message.UndecidedRemote.__new__")
     p = params(fi)
     ctx.need(len(p) == 2, "UndecidedRemote.__new__ signature changed")
     scheme, hostinfo = p
-    finals = [n for n, b in find("super().__new__($*a)", fi.node)]
-    ctx.floor("constructions through super().__new__ in UndecidedRemote.__new__", len(finals), 1)
-    for call in finals:
-        at = cfg.loc1(call)
-        ok_shape = len(call.args) == 3 and isinstance(call.args[1], ast.Name) and call.args[1].id == scheme and not writes_to_name(fi.node, scheme) and isinstance(call.args[2], ast.Name)
-        ctx.need(ok_shape, "UndecidedRemote.__new__: super().__new__(cls, scheme, <local>) expected")
-        defs = reaching_defs(fi, call.args[2].id, at)
-        norm_defs = [w for w in defs if w != PARAM]
-        ctx.ob("an unbracketed hostinfo is kept as given", PARAM in defs and call.args[2].id == hostinfo, fi, call)
-        ctx.ob("a normalised hostinfo reaches the constructor", len(norm_defs) >= 1, fi, call)
-        for w in norm_defs:
-            wn = cfg.loc1(w)
-            v = def_value(w, call.args[2].id)
-            ctx.need(v[0] == "expr", "UndecidedRemote.__new__: hostinfo re-bound by something other than an assignment")
-            val = v[1]
-            m = match("$f($h, $pt)", val)
-            okj = m is not None and ctx.prog.resolve_in_module(fi.module, chain(m["f"]) or "?") == "aiocoap.util.hostportjoin"
-            ctx.ob("the normalised hostinfo is hostportjoin(<normalised host>, <port>)", okj, fi, w)
-            if not okj:
-                continue
-            # host: str(ipaddress.ip_address(<host part of hostportsplit(hostinfo)>)); port: port part of the same split
-            h = resolve_at(fi, m["h"], wn)
-            mh = match("str($ip)", h)
-            ip = resolve_at(fi, mh["ip"], wn) if mh is not None else None
-            if ip is None and mh is not None:
-                ip = mh["ip"]
-            # the definition of `host` that feeds ip_address is the one before the re-binding: look it up at the ip statement
-            okip = False
-            split_call = None
-            if ip is not None and isinstance(ip, ast.Call) and ext_name(fi.module, ip) == "ipaddress.ip_address" and len(ip.args) == 1 and isinstance(ip.args[0], ast.Name):
-                ipn = cfg.loc1(ip)
-                ds = reaching_defs(fi, ip.args[0].id, ipn)
-                if len(ds) == 1 and ds[0] != PARAM:
-                    dv = def_value(ds[0], ip.args[0].id)
-                    if dv[0] == "unpack" and dv[1] == 0:
-                        split_call = dv[2]
-                        okip = True
-            oks = okip and isinstance(split_call, ast.Call) and ctx.prog.resolve_in_module(fi.module, chain(split_call.func) or "?") == "aiocoap.util.hostportsplit" \
-                and len(split_call.args) == 1 and isinstance(split_call.args[0], ast.Name) and split_call.args[0].id == hostinfo \
-                and reaching_defs(fi, hostinfo, cfg.loc1(split_call)) == [PARAM]
-            ctx.ob("the host part of hostportsplit(hostinfo) is normalised by str(ipaddress.ip_address(..))", bool(oks), fi, w, detail="host argument resolves to %s" % stmt_text(h, 80))
-            okp = False
-            if isinstance(m["pt"], ast.Name) and split_call is not None:
-                ds = reaching_defs(fi, m["pt"].id, wn)
-                if len(ds) == 1 and ds[0] != PARAM:
-                    dv = def_value(ds[0], m["pt"].id)
-                    okp = dv[0] == "unpack" and dv[1] == 1 and dv[2] is split_call
-            ctx.ob("the port re-joined is the port part of the same hostportsplit(hostinfo)", okp, fi, w)
-            brack = any(try_eval(ctx.prog, fi.module, e_.left if isinstance(e_, ast.Compare) else e_) == "[" and isinstance(e_, ast.Compare) and isinstance(e_.ops[0], ast.In)
-                        and chain(e_.comparators[0]) == hostinfo and pol for e_, pol in guard_exprs(cfg, wn) if isinstance(e_, ast.Compare) and len(e_.ops) == 1)
-            ctx.ob("normalisation applies to hostinfo containing '['", brack, fi, w)
-    ci = ctx.prog.cls("message.UndecidedRemote")
-    ctx.ob("UndecidedRemote.from_pathless_uri exists and constructs through the same __new__", "from_pathless_uri" in ci.methods and
-           any(True for _ in find("cls($a, $b)", ci.methods["from_pathless_uri"].node)) if "from_pathless_uri" in ci.methods else False, None, None, construct="UndecidedRemote.from_pathless_uri")
+    outs = ex.run(fi)
+    sp = BoolSpace(lambda e_: ev.ev(e_, fi.module, {}))
+    BR = sp.formula(pexpr("'[' in %s" % hostinfo))
+    finals = []
+    for o in outs:
+        v = o.end[1] if o.end is not None and o.end[0] == "return" else None
+        if isinstance(v, ast.Call) and match("super().__new__($*a)", v) is not None:
+            finals.append((o, v))
+    ctx.floor("constructions through super().__new__ in UndecidedRemote.__new__", len(finals), 2)
+    kept = normd = 0
+    for o, call in finals:
+        node = o.end[2]
+        ok_shape = len(call.args) == 3 and not call.keywords and isinstance(call.args[1], ast.Name) and call.args[1].id == scheme and getattr(call.args[1], "_local", False)
+        ctx.need(ok_shape, "UndecidedRemote.__new__: super().__new__(cls, scheme, <hostinfo>) expected, found `%s`" % txt(call, 100))
+        v = call.args[2]
+        c = sp.conj(o.conds())
+        if isinstance(v, ast.Name) and v.id == hostinfo and getattr(v, "_local", False):
+            kept += 1
+            ctx.ob("the hostinfo is kept as given only when it contains no '['", sp.implies(c, ("not", BR)), fi, node, detail="path: %s" % o.describe(), construct="UndecidedRemote: hostinfo kept")
+            continue
+        normd += 1
+        ctx.ob("normalisation applies to hostinfo containing '['", sp.implies(c, BR), fi, node, detail="path: %s" % o.describe(), construct="UndecidedRemote: hostinfo normalised")
+        m = match("$f($h, $pt)", v)
+        okj = m is not None and not v.keywords and qual_name(prog, fi.module, v) == "aiocoap.util.hostportjoin"
+        ctx.ob("the normalised hostinfo is hostportjoin(<normalised host>, <port>)", okj, fi, node, detail="value: %s" % txt(v, 120), construct="UndecidedRemote: re-joined with hostportjoin")
+        if not okj:
+            continue
+
+        def split_part(x, idx):
+            """x == hostportsplit(hostinfo)[idx]"""
+            return isinstance(x, ast.Subscript) and isinstance(x.slice, ast.Constant) and x.slice.value == idx and isinstance(x.value, ast.Call) \
+                and qual_name(prog, fi.module, x.value) == "aiocoap.util.hostportsplit" and len(x.value.args) == 1 and not x.value.keywords \
+                and isinstance(x.value.args[0], ast.Name) and x.value.args[0].id == hostinfo and getattr(x.value.args[0], "_local", False)
+        mh = match("str($ip)", m["h"]) or match("$ip.compressed", m["h"])  # IPv4/IPv6Address.compressed is str(address)
+        ip = mh["ip"] if mh is not None else None
+        oks = ip is not None and isinstance(ip, ast.Call) and qual_name(prog, fi.module, ip) == "ipaddress.ip_address" and len(ip.args) == 1 and not ip.keywords and split_part(ip.args[0], 0)
+        ctx.ob("the host part of hostportsplit(hostinfo) is normalised by str(ipaddress.ip_address(..))", bool(oks), fi, node, detail="host argument: %s" % txt(m["h"], 100),
+               construct="UndecidedRemote: host through ipaddress.ip_address")
+        ctx.ob("the port re-joined is the port part of the same hostportsplit(hostinfo)", split_part(m["pt"], 1), fi, node, detail="port argument: %s" % txt(m["pt"], 80),
+               construct="UndecidedRemote: port of the same split")
+    ctx.ob("an unbracketed hostinfo is kept as given", kept >= 1, fi, fi.node, construct="UndecidedRemote: hostinfo kept (exists)")
+    ctx.ob("a normalised hostinfo reaches the constructor", normd >= 1, fi, fi.node, construct="UndecidedRemote: hostinfo normalised (exists)")
+    ci = prog.cls("message.UndecidedRemote")
+    okp = False
+    if "from_pathless_uri" in ci.methods:
+        pfi = ci.methods["from_pathless_uri"]
+        for o in ex.run(pfi):
+            v = o.end[1] if o.end is not None and o.end[0] == "return" else None
+            if isinstance(v, ast.Call) and len(v.args) + len(v.keywords) == 2 and not any(isinstance(x, ast.Starred) for x in v.args) and (
+                    (isinstance(v.func, ast.Name) and v.func.id == "cls" and getattr(v.func, "_local", False)) or qual_name(prog, pfi.module, v) == ci.qn):
+                okp = True
+    ctx.ob("UndecidedRemote.from_pathless_uri exists and constructs through the same __new__", okp, None, None, construct="UndecidedRemote.from_pathless_uri")
 
 
 # ---------------------------------------------------------------------------
@@ -915,3 +1418,16 @@ R.seed("C16.c", "aiocoap/message.py", "                    for x in parsed.path.
 
 R.seed("C16.f", "aiocoap/message.py", "urllib.parse.uses_netloc.extend(coap_schemes)\n", "urllib.parse.uses_netloc.extend(coap_schemes)\nurllib.parse.uses_params.extend(coap_schemes)\n", "';params' split off the last path segment and dropped")
 R.seed("C16.c", "aiocoap/util/uri.py", "def quote_factory(safe_characters):", "def quote_factory(safe_characters, _memo={}):", "memo shared between the path and the query quoter")
+
+# seeds for the generalised (evaluation / outcome based) clauses
+R.seed("C16.c", F_M, "                    urllib.parse.unquote(x, errors=\"strict\")\n                    for x in parsed.query.split(\"&\")", "                    urllib.parse.unquote_plus(x, errors=\"strict\")\n                    for x in parsed.query.split(\"&\")", "'+' in a query item decoded as a space")
+R.seed("C16.c", F_M, "                    for x in parsed.query.split(\"&\")\n", "                    for x in parsed.query.split(\"&\") if x\n", "empty query items dropped: a&&b and a&b collapse")
+R.seed("C16.c", F_M, "        query = \"&\".join(_quote_for_query(q) for q in query)", "        query = \"&\".join(_quote_for_query(q) for q in query if q)", "writer drops empty query items")
+R.seed("C16.c", F_Q, "\"%%%02X\" % x for x in encoded", "\"%%%X\" % x for x in encoded", "one-digit escapes for bytes below 0x10")
+R.seed("C16.d", F_M, "                ).translate(_ascii_lowercase)\n", "                ).lower()\n", "Unicode lower-casing instead of the ASCII table")
+R.seed("C16.d", F_M, "x != \"\" and len(x) <= 3 and int(x) <= 255", "x != \"\" and len(x) <= 3 and int(x) <= 256", "1.2.3.256 treated as an IPv4 literal")
+R.seed("C16.d", F_M, "all(c in \"0123456789.\" for c in parsed.hostname)", "any(c in \"0123456789.\" for c in parsed.hostname)", "digits test weakened to any()")
+R.seed("C16.b", F_M, "            raise error.MalformedUrlError(\"Port must be numeric\") from e\n", "            pass\n", "non-numeric port silently accepted")
+R.seed("C16.b", F_M, "        if not parsed.hostname:\n            raise error.MalformedUrlError(\"CoAP URIs need a hostname\")\n", "        self.opt.uri_path = []\n        if not parsed.hostname:\n            raise error.MalformedUrlError(\"CoAP URIs need a hostname\")\n", "options modified before the host is checked")
+R.seed("C16.e", F_U, "    if port is None:\n        hostinfo = host", "    if not port:\n        hostinfo = host", "port 0 dropped")
+R.seed("C16.e", F_M, "        if \"[\" in hostinfo:\n            (host, port)", "        if hostinfo.startswith(\"[v\"):\n            (host, port)", "only IPvFuture literals normalised")
